@@ -7,10 +7,15 @@
    (the tree the heap holds below t.root, read back by reify, compared through the abstraction tabs that
    drops stale cells: a stale cell of the heap is a stale POINTER, a stale cell of the model a stale VALUE). *)
 From GoArt Require Import Base.Bytes Model.Node4 Model.Node16 Model.Node Model.Tree Model.Iter Model.Api
-  Model.Pool Model.PoolTree Model.GoHeap Gen.MutGen.
+  Spec.NodeSpec Spec.TreeSpec Proofs.BytesFacts Proofs.NodeFacts Proofs.TreeBasics
+  Model.Pool Proofs.PoolFacts Model.PoolTree Proofs.PoolTreeFacts Model.GoNode Model.GoTree Model.GoHeap
+  Gen.NodeGen Gen.TreeGen Proofs.NodeAuxList Proofs.TranslateNodeFacts Proofs.TranslateTreeFacts Gen.MutGen.
 From Coq Require Import ZifyN ZifyNat ZifyBool.
 Ltac Zify.zify_post_hook ::= Z.div_mod_to_equations.
 Open Scope N_scope.
+
+
+
 
 (* ================= A. co-simulation by computation ================= *)
 (* what a caller of kind k passes: the results of Transform (alpha: before the terminator is appended) *)
@@ -227,3 +232,1972 @@ Definition to_col (e : op * list choice) : op * list choice :=
 Example ex_collation_bytes_cosim :
   g_run KCollation g_init (map to_col ex_bytes) = x_run KCollation xinit [] (map to_col ex_bytes).
 Proof. vm_compute. reflexivity. Qed.
+
+(* ================= N. the node operations of Model/Pool.v commute with mapping the children ================= *)
+Local Opaque maxNode4 maxNode16 maxNode48 shrink16 shrink48 shrink256 maxPrefixLen.
+
+(* ---------------- list helpers ---------------- *)
+Section MapLists.
+Context {A B : Type} (g : A -> B).
+
+Lemma map_gcopy : forall off (src dst : list A),
+  map g (gcopy off src dst) = gcopy off (map g src) (map g dst).
+Proof.
+  intros off src dst. unfold gcopy.
+  rewrite !map_app, !map_length, <- !firstn_map, <- !skipn_map. reflexivity.
+Qed.
+
+Lemma map_shift_right_from : forall lo (l : list A),
+  map g (shift_right_from lo l) = shift_right_from lo (map g l).
+Proof.
+  intros lo l. unfold shift_right_from.
+  rewrite map_length, <- firstn_map, map_app, <- firstn_map, <- skipn_map. reflexivity.
+Qed.
+
+Lemma map_shift_left_onto : forall pos (l : list A),
+  map g (shift_left_onto pos l) = shift_left_onto pos (map g l).
+Proof.
+  intros pos l. unfold shift_left_onto.
+  rewrite map_length, !map_app, <- firstn_map, <- !skipn_map. reflexivity.
+Qed.
+
+Lemma forallb_map_c : forall (q : B -> bool) (l : list A), forallb q (map g l) = forallb (fun a => q (g a)) l.
+Proof.
+  intros q l. induction l as [|a l IH]; cbn [map forallb]; [reflexivity|]. rewrite IH. reflexivity.
+Qed.
+End MapLists.
+
+Lemma forallb_ext_c : forall {A} (q r : A -> bool) (l : list A), (forall a, q a = r a) -> forallb q l = forallb r l.
+Proof.
+  intros A q r l H. induction l as [|a l IH]; cbn [forallb]; [reflexivity|]. rewrite H, IH. reflexivity.
+Qed.
+
+Section XNat.
+Context {C D : Type} (f : C -> D).
+Local Notation om := (omap f).
+Local Notation xm := (xmap f).
+
+(* ---------------- 1. projections and predicates ---------------- *)
+Lemma xkind_xmap : forall n : xnode C, xkind (xmap f n) = xkind n.
+Proof. intros [h keys ch|h keys ch|h idx ch|h ch]; reflexivity. Qed.
+
+Lemma xch_xmap : forall n : xnode C, xch (xmap f n) = map (omap f) (xch n).
+Proof. intros [h keys ch|h keys ch|h idx ch|h ch]; reflexivity. Qed.
+
+Lemma xbytes_xmap : forall n : xnode C, xbytes (xmap f n) = xbytes n.
+Proof. intros [h keys ch|h keys ch|h idx ch|h ch]; reflexivity. Qed.
+
+Lemma xword_xmap : forall n : xnode C, xword (xmap f n) = xword n.
+Proof. intros [h keys ch|h keys ch|h idx ch|h ch]; reflexivity. Qed.
+
+Lemma shape_ok_xmap : forall n : xnode C, shape_ok (xmap f n) = shape_ok n.
+Proof.
+  intros [h keys ch|h keys ch|h idx ch|h ch]; cbn [xmap shape_ok]; rewrite map_length; reflexivity.
+Qed.
+
+Lemma occupied_ok_xmap : forall n : xnode C, occupied_ok (xmap f n) = occupied_ok n.
+Proof.
+  intros [h keys ch|h keys ch|h idx ch|h ch]; cbn [xmap occupied_ok]; try reflexivity;
+    rewrite firstn_map, forallb_map_c; apply forallb_ext_c; intros [c|]; reflexivity.
+Qed.
+
+Lemma allnil_omap : forall l : list (option C), allnil (map om l) = allnil l.
+Proof.
+  intros l. unfold allnil. rewrite forallb_map_c. apply forallb_ext_c. intros [c|]; reflexivity.
+Qed.
+
+Lemma is_zero_xmap : forall n : xnode C, is_zero (xmap f n) = is_zero n.
+Proof.
+  intros [h keys ch|h keys ch|h idx ch|h ch]; cbn [xmap is_zero]; rewrite allnil_omap, map_length; reflexivity.
+Qed.
+
+(* ---------------- 2. clear, new ---------------- *)
+Lemma clear_with_xmap : forall resets (n : xnode C),
+  clear_with resets (xmap f n) = xmap f (clear_with resets n).
+Proof.
+  intros resets [h keys ch|h keys ch|h idx ch|h ch]; cbn [xmap clear_with];
+    repeat match goal with |- context [has ?s resets] => destruct (has s resets) end;
+    try rewrite map_repeat_None; reflexivity.
+Qed.
+
+Lemma xclear_xmap : forall n : xnode C, xclear (xmap f n) = xmap f (xclear n).
+Proof. intros n. unfold xclear. rewrite xkind_xmap. apply clear_with_xmap. Qed.
+
+Lemma xzero_xmap : forall k, xmap f (xzero k) = xzero k.
+Proof. intros [| | |]; cbn [xzero xmap]; rewrite map_repeat_None; reflexivity. Qed.
+
+(* ---------------- 3. the pool ---------------- *)
+Lemma take_kind_xmap : forall k i (p : @pool C),
+  take_kind k i (map xm p) =
+  match take_kind k i p with
+  | Some r => Some (xmap f (fst r), map xm (snd r))
+  | None => None
+  end.
+Proof.
+  intros k i p. revert i. induction p as [|n p IH]; intros i; cbn [map take_kind]; [reflexivity|].
+  rewrite xkind_xmap. destruct (kind_eqb (xkind n) k).
+  - destruct i as [|i]; [reflexivity|]. rewrite IH. destruct (take_kind k i p) as [r|]; reflexivity.
+  - rewrite IH. destruct (take_kind k i p) as [r|]; reflexivity.
+Qed.
+
+Lemma get_xmap : forall o k (p : @pool C),
+  get o k (map (xmap f) p) = (xmap f (fst (get o k p)), map (xmap f) (snd (get o k p))).
+Proof.
+  intros [|i] k p; unfold get; cbn [fst snd].
+  - rewrite xzero_xmap. reflexivity.
+  - rewrite take_kind_xmap. destruct (take_kind k i p) as [r|]; cbn [fst snd]; [reflexivity|].
+    rewrite xzero_xmap. reflexivity.
+Qed.
+
+(* ---------------- 4. the loops ---------------- *)
+Lemma slot_at_omap : forall (slots : list (option C)) j, slot_at (map om slots) j = om (slot_at slots j).
+Proof.
+  intros slots j. unfold slot_at. rewrite nth_error_map.
+  destruct (nth_error slots (N.to_nat j)) as [[c|]|]; reflexivity.
+Qed.
+
+Lemma grow48_loop_omap : forall idx (slots dst : list (option C)),
+  grow48_loop idx (map om slots) (map om dst) = map om (grow48_loop idx slots dst).
+Proof.
+  induction idx as [|i idx IH]; intros slots [|d dst]; cbn [map grow48_loop]; try reflexivity.
+  rewrite IH, slot_at_omap. destruct (i =? 0); reflexivity.
+Qed.
+
+Lemma shrink256_loop_omap : forall (src : list (option C)) i pos idx ch,
+  shrink256_loop (map om src) i pos idx (map om ch) =
+  (fst (shrink256_loop src i pos idx ch), map om (snd (shrink256_loop src i pos idx ch))).
+Proof.
+  induction src as [|[c|] src IH]; intros i pos idx ch; cbn [map omap shrink256_loop fst snd]; [reflexivity| |apply IH].
+  rewrite <- IH. rewrite (map_set_at om). reflexivity.
+Qed.
+
+Lemma shrink48_loop_omap : forall idx (slots : list (option C)) i k keys ch,
+  shrink48_loop idx (map om slots) i k keys (map om ch) =
+  (fst (shrink48_loop idx slots i k keys ch), map om (snd (shrink48_loop idx slots i k keys ch))).
+Proof.
+  induction idx as [|pos idx IH]; intros slots i k keys ch; cbn [shrink48_loop fst snd]; [reflexivity|].
+  destruct (pos =? 0); [apply IH|].
+  rewrite <- IH. rewrite (map_set_at om), slot_at_omap. reflexivity.
+Qed.
+
+(* ---------------- 4. addChild ---------------- *)
+Lemma xadd256_xmap : forall h (ch : list (option C)) b c,
+  xadd256 h (map om ch) b (f c) = xmap f (xadd256 h ch b c).
+Proof. intros. unfold xadd256. cbn [xmap]. rewrite (map_set_at om). reflexivity. Qed.
+
+Lemma xadd48_xmap : forall h idx (ch : list (option C)) b c os p,
+  xadd48 h idx (map om ch) b (f c) os (map xm p) =
+  (xmap f (fst (xadd48 h idx ch b c os p)), map xm (snd (xadd48 h idx ch b c os p))).
+Proof.
+  intros. unfold xadd48. destruct (xlen h <? maxNode48); cbv zeta; cbn [fst snd].
+  - cbn [xmap]. rewrite first_free_omap, (map_set_at om). reflexivity.
+  - rewrite get_xmap. cbn [fst snd]. unfold put. cbn [map].
+    rewrite xh_xmap, xch_xmap, grow48_loop_omap, xadd256_xmap.
+    change (X48 h idx (map om ch)) with (xmap f (X48 h idx ch)). rewrite xclear_xmap. reflexivity.
+Qed.
+
+Lemma xadd16_xmap : forall h keys (ch : list (option C)) b c os p,
+  xadd16 h keys (map om ch) b (f c) os (map xm p) =
+  (xmap f (fst (xadd16 h keys ch b c os p)), map xm (snd (xadd16 h keys ch b c os p))).
+Proof.
+  intros. unfold xadd16. destruct (xlen h <? maxNode16); cbv zeta.
+  - destruct (_ =? _)%Z; cbn [fst snd xmap].
+    + rewrite (map_set_at om). reflexivity.
+    + rewrite (map_set_at om), map_shift_right_from. reflexivity.
+  - rewrite get_xmap. cbn [fst snd]. unfold put.
+    rewrite xh_xmap, xch_xmap, xbytes_xmap, firstn_map, <- map_gcopy, xadd48_xmap. cbn [fst snd map].
+    change (X16 h keys (map om ch)) with (xmap f (X16 h keys ch)). rewrite xclear_xmap. reflexivity.
+Qed.
+
+Lemma xadd4_xmap : forall h keys (ch : list (option C)) b c os p,
+  xadd4 h keys (map om ch) b (f c) os (map xm p) =
+  (xmap f (fst (xadd4 h keys ch b c os p)), map xm (snd (xadd4 h keys ch b c os p))).
+Proof.
+  intros. unfold xadd4. destruct (xlen h <? maxNode4); cbv zeta.
+  - destruct (_ =? _)%Z; cbn [fst snd xmap].
+    + rewrite (map_set_at om). reflexivity.
+    + rewrite (map_set_at om), map_shift_right_from. reflexivity.
+  - rewrite get_xmap. cbn [fst snd]. unfold put.
+    rewrite xh_xmap, xch_xmap, xbytes_xmap, <- map_gcopy, xadd16_xmap. cbn [fst snd map].
+    change (X4 h keys (map om ch)) with (xmap f (X4 h keys ch)). rewrite xclear_xmap. reflexivity.
+Qed.
+
+Theorem xadd_xmap : forall (n : xnode C) b c os p,
+  xadd (xmap f n) b (f c) os (map (xmap f) p) =
+  (xmap f (fst (xadd n b c os p)), map (xmap f) (snd (xadd n b c os p))).
+Proof.
+  intros [h keys ch|h keys ch|h idx ch|h ch] b c os p; cbn [xmap xadd].
+  - apply xadd4_xmap.
+  - apply xadd16_xmap.
+  - apply xadd48_xmap.
+  - cbn [fst snd]. rewrite xadd256_xmap. reflexivity.
+Qed.
+
+(* ---------------- 5. deleteChild ---------------- *)
+Lemma xdel256_xmap : forall h (ch : list (option C)) b os p,
+  xdel256 h (map om ch) b os (map xm p) =
+  (xmap f (fst (xdel256 h ch b os p)), map xm (snd (xdel256 h ch b os p))).
+Proof.
+  intros. unfold xdel256. cbv zeta. destruct (_ =? shrink256); cbn [fst snd].
+  - rewrite get_xmap. cbn [fst snd]. unfold put. cbn [map].
+    rewrite xh_xmap, xch_xmap, xbytes_xmap.
+    change (@None D) with (om None). rewrite <- (map_set_at om).
+    rewrite shrink256_loop_omap. cbn [fst snd xmap].
+    change (X256 (w_len (u8 (xlen h + 255)) h) (map om (set_at (N.to_nat b) None ch)))
+      with (xmap f (X256 (w_len (u8 (xlen h + 255)) h) (set_at (N.to_nat b) None ch))).
+    rewrite xclear_xmap. reflexivity.
+  - cbn [xmap]. rewrite (map_set_at om). reflexivity.
+Qed.
+
+Lemma xdel48_xmap : forall h idx (ch : list (option C)) b os p,
+  xdel48 h idx (map om ch) b os (map xm p) =
+  (xmap f (fst (xdel48 h idx ch b os p)), map xm (snd (xdel48 h idx ch b os p))).
+Proof.
+  intros. unfold xdel48. cbv zeta. destruct (_ =? shrink48); cbn [fst snd].
+  - rewrite get_xmap. cbn [fst snd]. unfold put. cbn [map].
+    rewrite xh_xmap, xch_xmap, xbytes_xmap.
+    change (@None D) with (om None). rewrite <- (map_set_at om).
+    rewrite shrink48_loop_omap. cbn [fst snd xmap].
+    match goal with |- context [xclear (X48 ?h' ?i' (map om ?c'))] =>
+      change (X48 h' i' (map om c')) with (xmap f (X48 h' i' c')) end.
+    rewrite xclear_xmap. reflexivity.
+  - cbn [xmap]. rewrite (map_set_at om). reflexivity.
+Qed.
+
+Lemma xdel16_xmap : forall h keys (ch : list (option C)) b os p,
+  xdel16 h keys (map om ch) b os (map xm p) =
+  (xmap f (fst (xdel16 h keys ch b os p)), map xm (snd (xdel16 h keys ch b os p))).
+Proof.
+  intros. unfold xdel16. cbv zeta. destruct (_ =? shrink16); cbn [fst snd].
+  - rewrite get_xmap. cbn [fst snd]. unfold put. cbn [map].
+    rewrite xh_xmap, xch_xmap, <- map_shift_left_onto, <- map_gcopy. cbn [xmap].
+    match goal with |- context [xclear (X16 ?h' ?i' (map om ?c'))] =>
+      change (X16 h' i' (map om c')) with (xmap f (X16 h' i' c')) end.
+    rewrite xclear_xmap. reflexivity.
+  - cbn [xmap]. rewrite map_shift_left_onto. reflexivity.
+Qed.
+
+Lemma xdel4_xmap : forall h keys (ch : list (option C)) b os p,
+  xdel4 h keys (map om ch) b os (map xm p) =
+  (xmap f (fst (xdel4 h keys ch b os p)), map xm (snd (xdel4 h keys ch b os p))).
+Proof.
+  intros. unfold xdel4. cbv zeta.
+  set (n' := if (searchNode4 keys b =? -1)%Z then X4 h keys ch
+             else X4 (w_len (u8 (xlen h + 255)) h) (shiftRightClear keys (Z.to_N (searchNode4 keys b + 1)))
+                     (shift_left_onto (Z.to_nat (searchNode4 keys b)) ch)).
+  assert (E : (if (searchNode4 keys b =? -1)%Z then X4 h keys (map om ch)
+               else X4 (w_len (u8 (xlen h + 255)) h) (shiftRightClear keys (Z.to_N (searchNode4 keys b + 1)))
+                       (shift_left_onto (Z.to_nat (searchNode4 keys b)) (map om ch))) = xmap f n').
+  { unfold n'. destruct (_ =? _)%Z; cbn [xmap]; [reflexivity|]. rewrite map_shift_left_onto. reflexivity. }
+  rewrite E, xh_xmap. destruct (xlen (xh n') =? 1); cbn [fst snd]; [|reflexivity].
+  unfold put. cbn [map]. rewrite xclear_xmap. reflexivity.
+Qed.
+
+Theorem xdel_xmap : forall (n : xnode C) b os p,
+  xdel (xmap f n) b os (map (xmap f) p) =
+  (xmap f (fst (xdel n b os p)), map (xmap f) (snd (xdel n b os p))).
+Proof.
+  intros [h keys ch|h keys ch|h idx ch|h ch] b os p; cbn [xmap xdel].
+  - apply xdel4_xmap.
+  - apply xdel16_xmap.
+  - apply xdel48_xmap.
+  - apply xdel256_xmap.
+Qed.
+
+(* ---------------- 6. a new node4 ---------------- *)
+Theorem xnew4_xmap : forall pl src os (p : @pool C),
+  xnew4 pl src os (map (xmap f) p) =
+  (xmap f (fst (xnew4 pl src os p)), map (xmap f) (snd (xnew4 pl src os p))).
+Proof.
+  intros. unfold xnew4. cbv zeta. rewrite get_xmap. cbn [fst snd xmap].
+  rewrite xh_xmap, xword_xmap, xch_xmap. reflexivity.
+Qed.
+
+(* ---------------- 7. reads, in-place writes, counters ---------------- *)
+Lemma slot_omap : forall (l : list (option C)) i, PoolTree.slot (map om l) i = om (PoolTree.slot l i).
+Proof.
+  intros l i. unfold PoolTree.slot. rewrite nth_error_map. destruct (nth_error l i) as [[c|]|]; reflexivity.
+Qed.
+
+Theorem xfind_xmap : forall (n : xnode C) b, xfind (xmap f n) b = omap f (xfind n b).
+Proof.
+  intros [h keys ch|h keys ch|h idx ch|h ch] b; cbn [xmap xfind].
+  - destruct (_ && _); [apply slot_omap|reflexivity].
+  - destruct (_ =? _)%Z; [reflexivity|apply slot_omap].
+  - destruct (_ =? 0); [reflexivity|apply slot_omap].
+  - apply slot_omap.
+Qed.
+
+Theorem xreplace_xmap : forall (n : xnode C) b c, xreplace (xmap f n) b (f c) = xmap f (xreplace n b c).
+Proof.
+  intros [h keys ch|h keys ch|h idx ch|h ch] b c; cbn [xmap xreplace].
+  - destruct (_ && _); cbn [xmap]; [rewrite (map_set_at om)|]; reflexivity.
+  - destruct (_ =? _)%Z; cbn [xmap]; [|rewrite (map_set_at om)]; reflexivity.
+  - destruct (_ =? 0); cbn [xmap]; [|rewrite (map_set_at om)]; reflexivity.
+  - rewrite (map_set_at om). reflexivity.
+Qed.
+
+Lemma xset_hdr_xmap : forall (n : xnode C) pl px, xset_hdr (xmap f n) pl px = xmap f (xset_hdr n pl px).
+Proof. intros [h keys ch|h keys ch|h idx ch|h ch] pl px; reflexivity. Qed.
+
+Lemma s_node_xmap : forall h (n : xnode C), s_node h (xmap f n) = xmap f (s_node h n).
+Proof. intros h0 [h keys ch|h keys ch|h idx ch|h ch]; reflexivity. Qed.
+
+Lemma s_children_xmap : forall v (n : xnode C), s_children (map om v) (xmap f n) = xmap f (s_children v n).
+Proof. intros v [h keys ch|h keys ch|h idx ch|h ch]; reflexivity. Qed.
+
+Lemma xadd_gets_xmap : forall n : xnode C, xadd_gets (xmap f n) = xadd_gets n.
+Proof. intros [h keys ch|h keys ch|h idx ch|h ch]; reflexivity. Qed.
+
+Lemma xdel_gets_xmap : forall n : xnode C, xdel_gets (xmap f n) = xdel_gets n.
+Proof. intros [h keys ch|h keys ch|h idx ch|h ch]; reflexivity. Qed.
+
+(* ---------------- 8. the abstraction ---------------- *)
+Lemma nenum_xabs_xmap : forall n : xnode C,
+  nenum (xabs (xmap f n)) = map (fun bc => (fst bc, f (snd bc))) (nenum (xabs n)).
+Proof. intros n. rewrite xabs_xmap, nenum_rmap. reflexivity. Qed.
+
+Lemma xwf_xmap : forall n : xnode C, xwf n -> xwf (xmap f n).
+Proof.
+  intros n (Hs & Ho & Hw). split; [|split].
+  - rewrite shape_ok_xmap. exact Hs.
+  - rewrite occupied_ok_xmap. exact Ho.
+  - rewrite xabs_xmap. apply nwf_rmap. exact Hw.
+Qed.
+
+End XNat.
+
+(* ---------------- 9. functoriality ---------------- *)
+Lemma xmap_ext : forall {A B} (f g : A -> B) (n : xnode A), (forall c, f c = g c) -> xmap f n = xmap g n.
+Proof.
+  intros A B f g n H.
+  assert (E : forall l : list (option A), map (omap f) l = map (omap g) l).
+  { intros l. apply map_ext. intros [c|]; cbn [omap]; [rewrite H|]; reflexivity. }
+  destruct n as [h keys ch|h keys ch|h idx ch|h ch]; cbn [xmap]; rewrite E; reflexivity.
+Qed.
+
+Lemma xmap_xmap : forall {A B E} (f : A -> B) (g : B -> E) (n : xnode A),
+  xmap g (xmap f n) = xmap (fun c => g (f c)) n.
+Proof.
+  intros A B E f g n.
+  assert (H : forall l : list (option A), map (omap g) (map (omap f) l) = map (omap (fun c => g (f c))) l).
+  { intros l. rewrite map_map. apply map_ext. intros [c|]; reflexivity. }
+  destruct n as [h keys ch|h keys ch|h idx ch|h ch]; cbn [xmap]; rewrite H; reflexivity.
+Qed.
+
+Lemma xmap_id : forall {A} (n : xnode A), xmap (fun c => c) n = n.
+Proof.
+  intros A n.
+  assert (H : forall l : list (option A), map (omap (fun c : A => c)) l = l).
+  { intros l. rewrite <- (map_id l) at 2. apply map_ext. intros [c|]; reflexivity. }
+  destruct n as [h keys ch|h keys ch|h idx ch|h ch]; cbn [xmap]; rewrite H; reflexivity.
+Qed.
+
+Lemma zero_xmap_any : forall {A B} (f : A -> B) (n : xnode A),
+  is_zero n = true -> xmap f n = xzero (xkind n).
+Proof.
+  intros A B f n H. pose proof (is_zero_eq n H) as E.
+  transitivity (xmap f (xzero (xkind n))); [f_equal; exact E|apply xzero_xmap].
+Qed.
+
+(* ---------------- 10. label_cells / relabel: the index of the cell ---------------- *)
+Lemma nth_error_label_from : forall {C} (l : list (option C)) s i,
+  nth_error (map (fun ic : nat * option C => match snd ic with Some _ => Some (fst ic) | None => None end)
+                 (combine (seq s (length l)) l)) i =
+  match nth_error l i with
+  | Some (Some _) => Some (Some (s + i)%nat)
+  | Some None => Some None
+  | None => None
+  end.
+Proof.
+  intros C. induction l as [|x l IH]; intros s i.
+  - destruct i; reflexivity.
+  - cbn [length seq combine map]. destruct i as [|i]; cbn [nth_error fst snd].
+    + destruct x; [rewrite Nat.add_0_r|]; reflexivity.
+    + rewrite IH. replace (S s + i)%nat with (s + S i)%nat by lia. reflexivity.
+Qed.
+
+Lemma nth_error_label_cells : forall {C} (l : list (option C)) i,
+  nth_error (label_cells l) i =
+  match nth_error l i with
+  | Some (Some _) => Some (Some i)
+  | Some None => Some None
+  | None => None
+  end.
+Proof. intros C l i. unfold label_cells. rewrite nth_error_label_from. reflexivity. Qed.
+
+Lemma length_label_cells : forall {C} (l : list (option C)), length (label_cells l) = length l.
+Proof. intros C l. unfold label_cells. rewrite map_length, combine_length, seq_length. lia. Qed.
+
+Lemma slot_label_cells : forall {C} (l : list (option C)) i,
+  PoolTree.slot (label_cells l) i =
+  match nth_error l i with Some (Some _) => Some i | _ => None end.
+Proof.
+  intros C l i. unfold PoolTree.slot. rewrite nth_error_label_cells.
+  destruct (nth_error l i) as [[c|]|]; reflexivity.
+Qed.
+
+(* relabel is a map of the node zipped with its indices: it erases to the shape of the node *)
+Lemma xkind_relabel : forall {C} (n : xnode C), xkind (relabel n) = xkind n.
+Proof. intros C [h keys ch|h keys ch|h idx ch|h ch]; reflexivity. Qed.
+Lemma xh_relabel : forall {C} (n : xnode C), xh (relabel n) = xh n.
+Proof. intros C [h keys ch|h keys ch|h idx ch|h ch]; reflexivity. Qed.
+Lemma xch_relabel : forall {C} (n : xnode C), xch (relabel n) = label_cells (xch n).
+Proof. intros C [h keys ch|h keys ch|h idx ch|h ch]; reflexivity. Qed.
+
+Lemma slot_cell_case : forall {C} (ch : list (option C)) i,
+  match (match nth_error ch i with Some (Some _) => Some i | _ => None end) with
+  | Some j => exists c, nth_error ch j = Some (Some c) /\ PoolTree.slot ch i = Some c /\ j = i
+  | None => PoolTree.slot ch i = None
+  end.
+Proof.
+  intros C ch i. unfold PoolTree.slot. destruct (nth_error ch i) as [[c|]|] eqn:E; try reflexivity.
+  exists c. rewrite E. repeat split.
+Qed.
+
+Theorem xfind_relabel : forall {C} (n : xnode C) b,
+  match xfind (relabel n) b with
+  | Some i => exists c, nth_error (xch n) i = Some (Some c) /\ xfind n b = Some c /\
+              (forall c', xreplace n b c' = s_children (set_at i (Some c') (xch n)) n)
+  | None => xfind n b = None
+  end.
+Proof.
+  intros C [h keys ch|h keys ch|h idx ch|h ch] b; cbn [relabel xfind xreplace xch s_children].
+  - destruct (_ && _); [|reflexivity]. rewrite slot_label_cells.
+    pose proof (slot_cell_case ch (Z.to_nat (searchNode4 keys b))) as H.
+    destruct (match nth_error ch (Z.to_nat (searchNode4 keys b)) with Some (Some _) => Some _ | _ => None end)
+      as [j|]; [|exact H].
+    destruct H as (c & H1 & H2 & ->). exists c. repeat split; assumption.
+  - destruct (_ =? _)%Z; [reflexivity|]. rewrite slot_label_cells.
+    pose proof (slot_cell_case ch (Z.to_nat (searchNode16 keys (xlen h) b))) as H.
+    destruct (match nth_error ch (Z.to_nat (searchNode16 keys (xlen h) b)) with Some (Some _) => Some _ | _ => None end)
+      as [j|]; [|exact H].
+    destruct H as (c & H1 & H2 & ->). exists c. repeat split; assumption.
+  - destruct (_ =? 0); [reflexivity|]. rewrite slot_label_cells.
+    pose proof (slot_cell_case ch (N.to_nat (nth (N.to_nat b) idx 0 - 1))) as H.
+    destruct (match nth_error ch (N.to_nat (nth (N.to_nat b) idx 0 - 1)) with Some (Some _) => Some _ | _ => None end)
+      as [j|]; [|exact H].
+    destruct H as (c & H1 & H2 & ->). exists c. repeat split; assumption.
+  - rewrite slot_label_cells.
+    pose proof (slot_cell_case ch (N.to_nat b)) as H.
+    destruct (match nth_error ch (N.to_nat b) with Some (Some _) => Some _ | _ => None end)
+      as [j|]; [|exact H].
+    destruct H as (c & H1 & H2 & ->). exists c. repeat split; assumption.
+Qed.
+
+(* ================= B. the representation of a raw tree in the heap ================= *)
+(* a raw tree with an address at every node: the heap object of a node is the node with its children
+   replaced by their addresses (aref), the model's value is the node with the addresses erased (strip).
+   Stale cells carry an address and a value too; nothing is required of them. *)
+Inductive atree : Type :=
+| ALeaf (a : addr) (gk tk : list N) (v : Z)
+| AInner (a : addr) (n : xnode atree).
+Definition aref (t : atree) : addr := match t with ALeaf a _ _ _ | AInner a _ => a end.
+Fixpoint strip (t : atree) : xtree :=
+  match t with
+  | ALeaf _ gk tk v => XLeaf gk tk v
+  | AInner _ n => XInner (xmap strip n)
+  end.
+Definition aobj (t : atree) : hobj :=
+  match t with ALeaf _ gk tk v => HLeaf gk tk v | AInner _ n => HNode (xmap aref n) end.
+(* the occupied cells *)
+Definition kids (n : xnode atree) : list (N * atree) := nenum (xabs n).
+
+(* every node reachable through occupied cells is in the heap at its address, and is xwf *)
+Inductive stored (h : heap) : atree -> Prop :=
+| st_leaf : forall a gk tk v, load h a = Some (HLeaf gk tk v) -> stored h (ALeaf a gk tk v)
+| st_inner : forall a n, load h a = Some (HNode (xmap aref n)) -> xwf n ->
+    (forall b c, In (b, c) (kids n) -> stored h c) -> stored h (AInner a n).
+(* the footprint: the addresses of the nodes reachable through occupied cells *)
+Inductive live : atree -> addr -> Prop :=
+| live_root : forall t, live t (aref t)
+| live_kid : forall a n b c x, In (b, c) (kids n) -> live c x -> live (AInner a n) x.
+(* the footprints of different children are disjoint and do not contain the parent *)
+Inductive sep : atree -> Prop :=
+| sep_leaf : forall a gk tk v, sep (ALeaf a gk tk v)
+| sep_inner : forall a n,
+    (forall b c, In (b, c) (kids n) -> sep c) ->
+    (forall b c, In (b, c) (kids n) -> ~ live c a) ->
+    (forall b1 c1 b2 c2 x, In (b1, c1) (kids n) -> In (b2, c2) (kids n) -> b1 <> b2 ->
+       live c1 x -> live c2 x -> False) ->
+    sep (AInner a n).
+
+Lemma stored_load : forall h t, stored h t -> load h (aref t) = Some (aobj t).
+Proof. intros h t H. destruct H; assumption. Qed.
+Lemma stored_inv : forall h a n, stored h (AInner a n) ->
+  load h a = Some (HNode (xmap aref n)) /\ xwf n /\ (forall b c, In (b, c) (kids n) -> stored h c).
+Proof. intros h a n H. inversion H; subst. auto. Qed.
+Lemma sep_inv : forall a n, sep (AInner a n) ->
+  (forall b c, In (b, c) (kids n) -> sep c) /\ (forall b c, In (b, c) (kids n) -> ~ live c a) /\
+  (forall b1 c1 b2 c2 x, In (b1, c1) (kids n) -> In (b2, c2) (kids n) -> b1 <> b2 -> live c1 x -> live c2 x -> False).
+Proof. intros a n H. inversion H; subst. auto. Qed.
+Lemma live_inv : forall t x, live t x ->
+  x = aref t \/ exists a n b c, t = AInner a n /\ In (b, c) (kids n) /\ live c x.
+Proof. intros t x H. destruct H; [left; reflexivity|right; eauto 8]. Qed.
+Lemma live_leaf : forall a gk tk v x, live (ALeaf a gk tk v) x -> x = a.
+Proof. intros a gk tk v x H. destruct (live_inv _ _ H) as [E|(a' & n & b & c & E & _)]; [exact E|discriminate]. Qed.
+
+(* frame: a heap that agrees on the footprint stores the same tree *)
+Lemma stored_frame : forall h h' t, stored h t -> (forall x, live t x -> load h' x = load h x) -> stored h' t.
+Proof.
+  intros h h' t H. induction H as [a gk tk v Hl|a n Hl Hx Hk IH]; intros Hf.
+  - constructor. rewrite (Hf a (live_root (ALeaf a gk tk v))). exact Hl.
+  - constructor; [rewrite (Hf a (live_root (AInner a n))); exact Hl|exact Hx|].
+    intros b c Hin. apply (IH b c Hin). intros x Hlx. apply Hf. eapply live_kid; eassumption.
+Qed.
+
+Lemma strip_xtwf : forall h t, stored h t -> xtwf (strip t).
+Proof.
+  intros h t H. induction H as [a gk tk v Hl|a n Hl Hx Hk IH]; cbn [strip]; constructor.
+  - apply xwf_xmap. exact Hx.
+  - intros b c Hin. rewrite nenum_xabs_xmap in Hin. apply in_map_iff in Hin.
+    destruct Hin as ([b' c'] & E & Hin). cbn [fst snd] in E. injection E as <- <-. apply (IH b' c' Hin).
+Qed.
+
+(* kids found by findChild *)
+Lemma kid_of_find : forall (n : xnode atree) b c, xwf n -> b < 256 -> xfind n b = Some c -> In (b, c) (kids n).
+Proof.
+  intros n b c Hx Hb H. unfold kids. rewrite xfind_abs in H by exact Hx.
+  rewrite nfind_spec in H by (try apply Hx; exact Hb). apply assoc_in. exact H.
+Qed.
+Lemma find_of_kid : forall (n : xnode atree) b c, xwf n -> b < 256 -> In (b, c) (kids n) -> xfind n b = Some c.
+Proof.
+  intros n b c Hx Hb H. unfold kids in H. rewrite xfind_abs by exact Hx.
+  rewrite nfind_spec by (try apply Hx; exact Hb). apply in_assoc; [apply nenum_sorted; apply Hx|exact H].
+Qed.
+
+Lemma kids_keys_unique : forall (n : xnode atree) b c1 c2, xwf n -> In (b, c1) (kids n) -> In (b, c2) (kids n) -> c1 = c2.
+Proof.
+  intros n b c1 c2 Hx H1 H2. unfold kids in *.
+  assert (Hs : keys_sorted (nenum (xabs n))) by (apply nenum_sorted; apply Hx).
+  pose proof (in_assoc _ _ _ Hs H1) as A1. pose proof (in_assoc _ _ _ Hs H2) as A2. congruence.
+Qed.
+
+(* ---- heap algebra ---- *)
+Lemma load_store_same : forall h a o, load (store h a o) a = Some o.
+Proof. intros. unfold load, store. cbn [cells]. rewrite Nat.eqb_refl. reflexivity. Qed.
+Lemma load_store_other : forall h a o x, x <> a -> load (store h a o) x = load h x.
+Proof. intros h a o x H. unfold load, store. cbn [cells]. destruct (Nat.eqb_spec x a); [contradiction|reflexivity]. Qed.
+Lemma next_store : forall h a o, next (store h a o) = next h.
+Proof. reflexivity. Qed.
+
+(* ---- zero pools: the children type is irrelevant ---- *)
+Lemma zero_map_irrel : forall {A B} (f g : A -> B) (q : @pool A), zero_pool q -> map (xmap f) q = map (xmap g) q.
+Proof.
+  intros A B f g q Hq. apply map_ext_in. intros n Hn.
+  pose proof (proj1 (Forall_forall _ _) Hq n Hn) as Hz. cbv beta in Hz.
+  rewrite (zero_xmap_any f n Hz), (zero_xmap_any g n Hz). reflexivity.
+Qed.
+Lemma zero_pool_map : forall {A B} (f : A -> B) (q : @pool A), zero_pool q -> zero_pool (map (xmap f) q).
+Proof.
+  intros A B f q Hq. apply Forall_forall. intros n Hn. apply in_map_iff in Hn. destruct Hn as (m & <- & Hm).
+  rewrite is_zero_xmap. exact (proj1 (Forall_forall _ _) Hq m Hm).
+Qed.
+Lemma zero_pool_unmap : forall {A B} (f : A -> B) (q : @pool A), zero_pool (map (xmap f) q) -> zero_pool q.
+Proof.
+  intros A B f q Hq. apply Forall_forall. intros n Hn.
+  pose proof (proj1 (Forall_forall _ _) Hq (xmap f n) (in_map _ _ _ Hn)) as Hz. cbv beta in Hz.
+  rewrite is_zero_xmap in Hz. exact Hz.
+Qed.
+Lemma map_xmap_id_zero : forall {A} (f : A -> A) (q : @pool A), zero_pool q -> map (xmap f) q = q.
+Proof.
+  intros A f q Hq. rewrite (zero_map_irrel f (fun c => c) q Hq). rewrite <- (map_id q) at 2.
+  apply map_ext. intros n. apply xmap_id.
+Qed.
+
+(* the pool of annotated nodes standing for a zero pool of the model *)
+Definition adummy : atree := ALeaf O [] [] 0%Z.
+Definition apool (pm : xpool) : @pool atree := map (xmap (fun _ : xtree => adummy)) pm.
+Definition cref (c : atree) : hcell := CRef (aref c).
+Lemma apool_zero : forall pm, zero_pool pm -> zero_pool (apool pm).
+Proof. intros. apply zero_pool_map. assumption. Qed.
+Lemma apool_strip : forall pm, zero_pool pm -> map (xmap strip) (apool pm) = pm.
+Proof.
+  intros pm Hp. unfold apool. rewrite map_map.
+  rewrite (map_ext _ (xmap (fun c => strip ((fun _ : xtree => adummy) c)))) by (intros; apply xmap_xmap).
+  apply map_xmap_id_zero. exact Hp.
+Qed.
+Lemma pool_back : forall (q : @pool atree), zero_pool q ->
+  map (xmap cell_addr) (map (xmap cref) q) = map_pool (map (xmap strip) q).
+Proof.
+  intros q Hq. unfold map_pool. rewrite !map_map.
+  rewrite (map_ext _ (xmap (fun c => cell_addr (cref c)))) by (intros; apply xmap_xmap).
+  rewrite (map_ext (fun x => xmap _ (xmap strip x)) (xmap (fun c => (fun _ : xtree => O) (strip c)))) by (intros; apply xmap_xmap).
+  apply zero_map_irrel. exact Hq.
+Qed.
+Lemma pool_fwd : forall pm, zero_pool pm -> map (xmap CRef) (map_pool pm) = map (xmap cref) (apool pm).
+Proof.
+  intros pm Hp. unfold map_pool, apool. rewrite !map_map.
+  rewrite (map_ext (fun x => xmap CRef (xmap _ x)) (xmap (fun c => CRef ((fun _ : xtree => O) c)))) by (intros; apply xmap_xmap).
+  rewrite (map_ext (fun x => xmap cref (xmap _ x)) (xmap (fun c => cref ((fun _ : xtree => adummy) c)))) by (intros; apply xmap_xmap).
+  apply zero_map_irrel. exact Hp.
+Qed.
+
+(* ---- reads of a stored node ---- *)
+Definition atag (t : atree) : gkind :=
+  match t with
+  | ALeaf _ _ _ _ => KindLeaf
+  | AInner _ n => match xkind n with K4 => Kind4 | K16 => Kind16 | K48 => Kind48 | K256 => Kind256 end
+  end.
+Lemma h_tag_stored : forall h t, stored h t -> h_tag h (Some (aref t)) = Some (atag t).
+Proof.
+  intros h t H. unfold h_tag. rewrite (stored_load _ _ H).
+  destruct t as [a gk tk v|a n]; cbn [aobj atag]; [reflexivity|]. rewrite xkind_xmap. reflexivity.
+Qed.
+Lemma h_ref_node_stored : forall h a n, stored h (AInner a n) -> h_ref_node h (Some a) = Some a.
+Proof. intros h a n H. unfold h_ref_node. pose proof (stored_load _ _ H) as Hl. cbn [aref aobj] in Hl. rewrite Hl. reflexivity. Qed.
+Lemma h_hdr_stored : forall h a n, stored h (AInner a n) -> h_hdr h a = xh n.
+Proof. intros h a n H. unfold h_hdr. pose proof (stored_load _ _ H) as Hl. cbn [aref aobj] in Hl. rewrite Hl. apply xh_xmap. Qed.
+Lemma h_cast_leaf_stored : forall h a gk tk v, stored h (ALeaf a gk tk v) ->
+  h_cast_leaf h (Some a) = Some a /\ h_leaf_gk h a = gk /\ h_leaf_tk h a = tk.
+Proof.
+  intros h a gk tk v H. unfold h_cast_leaf, h_leaf_gk, h_leaf_tk. pose proof (stored_load _ _ H) as Hl. cbn [aref aobj] in Hl. rewrite Hl. auto.
+Qed.
+
+Lemma label_cells_omap : forall {A B} (f : A -> B) (l : list (option A)), label_cells (map (omap f) l) = label_cells l.
+Proof.
+  intros A B f l. unfold label_cells. rewrite map_length. generalize (seq 0 (length l)). 
+  induction l as [|o l IH]; intros s; destruct s as [|i s]; cbn [map combine]; try reflexivity.
+  rewrite IH. destruct o; reflexivity.
+Qed.
+Lemma relabel_xmap : forall {A B} (f : A -> B) (n : xnode A), relabel (xmap f n) = relabel n.
+Proof. intros A B f [h k ch|h k ch|h k ch|h ch]; cbn [relabel xmap]; rewrite label_cells_omap; reflexivity. Qed.
+
+Lemma findChild_stored : forall h a (n : xnode atree) b, stored h (AInner a n) -> b < 256 ->
+  match xfind n b with
+  | Some c => exists i, h_findChild h (Some a) b = Some (SCell a i) /\ nth_error (xch n) i = Some (Some c) /\
+                        (forall c', xreplace n b c' = s_children (set_at i (Some c') (xch n)) n)
+  | None => h_findChild h (Some a) b = Some SNil
+  end.
+Proof.
+  intros h a n b H Hb. destruct (stored_inv _ _ _ H) as (Hl & Hx & _).
+  unfold h_findChild. rewrite Hl. rewrite relabel_xmap.
+  rewrite gen_findChild_eq.
+  2:{ pose proof (find_hyps_from_xwf n Hx) as Hi. destruct n; exact Hi. }
+  pose proof (xfind_relabel n b) as R. destruct (xfind (relabel n) b) as [i|].
+  - destruct R as (c & Hn & Hf & Hr). rewrite Hf. exists i. auto.
+  - rewrite R. reflexivity.
+Qed.
+
+Lemma slot_read_cell : forall h root a (n : xnode atree) i c, stored h (AInner a n) ->
+  nth_error (xch n) i = Some (Some c) -> slot_read h root (SCell a i) = Some (Some (aref c)).
+Proof.
+  intros h root a n i c H Hn. unfold slot_read. pose proof (stored_load _ _ H) as Hl. cbn [aref aobj] in Hl. rewrite Hl.
+  rewrite xch_xmap, nth_error_map, Hn. reflexivity.
+Qed.
+
+Lemma skipn_map_c : forall {A B} (g : A -> B) k l, skipn k (map g l) = map g (skipn k l).
+Proof. intros A B g k. induction k as [|k IH]; intros [|x l]; cbn [skipn map]; auto. Qed.
+Lemma nth_map_omap : forall {A B} (g : A -> B) i (l : list (option A)), nth i (map (omap g) l) None = omap g (nth i l None).
+Proof. intros A B g i. induction i as [|i IH]; intros [|x l]; cbn [nth map]; auto. Qed.
+
+(* what node4.deleteChild writes into the header of the last child: the merged path *)
+Definition g4_pfx (hN : xhdr) (kN : N) (hc : xhdr) : list N * N :=
+  let p0 := N.of_nat (xplen hN) in
+  let '(pf, pr) := if p0 <? 10 then (set_at (N.to_nat p0) (getAtPos kN 0) (xprefix hN), add32 p0 1) else (xprefix hN, p0) in
+  if pr <? 10 then (gcopy (N.to_nat pr) (xprefix hc) pf, add32 pr (N.min (N.of_nat (xplen hc)) (sub32 10 pr))) else (pf, pr).
+Definition g4_h1 (hN : xhdr) (kN : N) (hc : xhdr) : xhdr :=
+  hs_prefix (gcopy 0 (firstn (N.to_nat (N.min 10 (snd (g4_pfx hN kN hc)))) (fst (g4_pfx hN kN hc))) (xprefix hc)) hc.
+Definition g4_h2 (hN : xhdr) (hc' : xhdr) : xhdr :=
+  hs_prefixLen (add32 (N.of_nat (xplen hc')) (add32 (N.of_nat (xplen hN)) 1)) hc'.
+
+(* node4.deleteChild of a present byte at ANY reading of what a child is: the node after the first if, then
+   either that node or the last child with its header rewritten *)
+Lemma g4_char : forall {C} (inner : xnode C -> C) il ho wh hd4 keys (ch : list (option C)) b os p,
+  (0 <= searchNode4 keys b < 4)%Z -> length ch = 4%nat ->
+  let i := searchNode4 keys b in
+  let hN := w_len (sub8 (xlen hd4) 1) hd4 in
+  let kN := shiftRightClear keys (Z.to_N (i + 1)) in
+  let cN := gcopy (Z.to_nat i) (skipn (Z.to_nat (i + 1)) ch) ch in
+  g_node4_deleteChild inner il ho wh (X4 hd4 keys ch) b os p =
+  if xlen hN =? 1 then
+    (match nth 0 cN None with
+     | Some c => if il c then Some c
+                 else let c1 := wh c (g4_h1 hN kN (ho c)) in Some (wh c1 (g4_h2 hN (ho c1)))
+     | None => None
+     end, put (X4 xhdr0 0 (repeat None 4)) p)
+  else (Some (inner (X4 hN kN cN)), p).
+Proof.
+  intros C inner il ho wh hd4 keys ch b os p Hi Hlc i hN kN cN.
+  unfold g_node4_deleteChild. nsimp. fold i.
+  replace (i =? -1)%Z with false by lia. cbn [negb]. nsimp. fold hN kN cN.
+  destruct (xlen hN =? 1); [|reflexivity].
+  destruct (nth 0 cN None) as [c|]; cbn [cell_is_leaf cell_hdr cell_set_hdr negb].
+  - destruct (il c); cbn [negb].
+    + reflexivity.
+    + unfold g4_h1, g4_h2, g4_pfx. cbv zeta.
+      destruct (N.of_nat (xplen hN) <? 10); nsimp.
+      * destruct (add32 (N.of_nat (xplen hN)) 1 <? 10); nsimp; reflexivity.
+      * destruct (N.of_nat (xplen hN) <? 10); nsimp; reflexivity.
+  - cbn [xhdr0]. unfold g4_pfx. 
+    destruct (N.of_nat (xplen hN) <? 10); nsimp.
+    + destruct (add32 (N.of_nat (xplen hN)) 1 <? 10); nsimp; reflexivity.
+    + destruct (N.of_nat (xplen hN) <? 10); nsimp; reflexivity.
+Qed.
+
+(* node4.deleteChild of a present byte, run at the heap's reading of a child (hcell) and at the model's
+   (xtree) on the two images of one annotated node: the same case, the same node / child / header *)
+Lemma g4_rel : forall h hd4 keys (ch : list (option atree)) b os (pat : @pool atree),
+  xwf (X4 hd4 keys ch) -> (forall b' c, In (b', c) (kids (X4 hd4 keys ch)) -> stored h c) ->
+  b < 256 -> xfind (X4 hd4 keys ch) b <> None -> zero_pool pat ->
+  let GX := g_node4_deleteChild xt_inner xt_is_leaf xt_hdr_of xt_with_hdr (xmap strip (X4 hd4 keys ch)) b os (map (xmap strip) pat) in
+  let GH := g_node4_deleteChild hc_inner (hc_is_leaf h) (hc_hdr_of h) hc_with_hdr (xmap cref (X4 hd4 keys ch)) b os (map (xmap cref) pat) in
+  let n' := fst (xdel4 hd4 keys ch b os pat) in
+  (xlen (xh n') <> 1 /\ GX = (Some (XInner (xmap strip n')), map (xmap strip) pat) /\
+   GH = (Some (CNode (xmap aref n')), map (xmap cref) pat)) \/
+  (xlen (xh n') = 1 /\ snd GX = map (xmap strip) (put (xclear n') pat) /\ snd GH = map (xmap cref) (put (xclear n') pat) /\
+   exists b' c, In (b', c) (kids (X4 hd4 keys ch)) /\ nth 0 (xch n') None = Some c /\
+     ((exists a gk tk v, c = ALeaf a gk tk v /\ fst GX = Some (strip c) /\ fst GH = Some (CRef a)) \/
+      (exists ca cn pl px, c = AInner ca cn /\ fst GX = Some (XInner (xset_hdr (xmap strip cn) pl px)) /\
+         fst GH = Some (CHdr ca (w_prefix px (w_plen pl (xh cn)))) /\ length px = length (xprefix (xh cn))))).
+Proof.
+  intros h hd4 keys ch b os pat Hx Hst Hb Hf Hzp GX GH n'.
+  destruct (xwf4_inv _ _ _ Hx) as (Hlc & Ho & Hl & _).
+  assert (Hi : (0 <= searchNode4 keys b < 4)%Z).
+  { cbn [xfind] in Hf. destruct (searchNode4_range keys b) as [E|E].
+    - rewrite E in Hf. cbn in Hf. contradiction Hf. reflexivity.
+    - destruct (Z.ltb_spec (searchNode4 keys b) (Z.of_N (xlen hd4))) as [L|L]; [lia|].
+      rewrite Bool.andb_false_r in Hf. contradiction Hf. reflexivity. }
+  assert (Hpres : assoc b (nenum (xabs (X4 hd4 keys ch))) <> None).
+  { rewrite <- nfind_spec by (try apply Hx; exact Hb). rewrite <- xfind_abs by exact Hx. exact Hf. }
+  destruct (xdel_sim (X4 hd4 keys ch) b os pat Hx) as (Eabs & Hx'); try assumption.
+  cbn [xdel] in Eabs, Hx'. fold n' in Eabs, Hx'.
+  destruct (ndel_spec (xabs (X4 hd4 keys ch)) b (proj2 (proj2 Hx)) Hb Hpres) as (_ & En & _).
+  (* the node after the first if, at any reading of the children *)
+  set (i := searchNode4 keys b) in *.
+  assert (Ei : (i =? -1)%Z = false) by lia.
+  set (N1 := X4 (w_len (sub8 (xlen hd4) 1) hd4) (shiftRightClear keys (Z.to_N (i + 1)))
+                (gcopy (Z.to_nat i) (skipn (Z.to_nat (i + 1)) ch) ch)).
+  assert (EN : N1 = n').
+  { subst N1 n'. unfold xdel4. fold i. rewrite Ei. cbn [xh xlen w_len].
+    destruct (_ =? 1); cbn [fst]; rewrite sub8_1; rewrite Z2Nat.inj_add by lia;
+      change (Z.to_nat 1) with 1%nat; rewrite Nat.add_1_r; rewrite gcopy_shift_left by lia; reflexivity. }
+  assert (Hx1 : xwf N1) by (rewrite EN; exact Hx').
+  assert (Ek1 : nenum (xabs N1) = rem_key b (kids (X4 hd4 keys ch))) by (rewrite EN, Eabs; exact En).
+  assert (Hk1 : xkind N1 = K4) by reflexivity.
+  assert (El : xlen (xh n') = xlen (w_len (sub8 (xlen hd4) 1) hd4)) by (rewrite <- EN; reflexivity).
+  subst GX GH. cbn [xmap].
+  rewrite !g4_char by (try assumption; rewrite ?map_length; assumption).
+  fold i. cbv zeta. rewrite !skipn_map_c, <- !map_gcopy, !nth_map_omap.
+  set (hN := w_len (sub8 (xlen hd4) 1) hd4) in *.
+  set (kN := shiftRightClear keys (Z.to_N (i + 1))) in *.
+  set (cN := gcopy (Z.to_nat i) (skipn (Z.to_nat (i + 1)) ch) ch) in *.
+  rewrite El. destruct (N.eqb_spec (xlen hN) 1) as [E1|E1].
+  2:{ left. split; [exact E1|]. rewrite <- EN. subst N1. split; [reflexivity|].
+      unfold hc_inner. cbn [xmap]. rewrite map_map.
+      rewrite (map_ext (fun x => omap cell_addr (omap cref x)) (omap aref)) by (intros [x|]; reflexivity). reflexivity. }
+  right. split; [exact E1|]. cbn [fst snd].
+  assert (Ecl : xclear n' = X4 xhdr0 0 (repeat None 4)) by (rewrite <- EN; reflexivity).
+  rewrite Ecl. split; [reflexivity|]. split; [reflexivity|].
+  (* the last child *)
+  destruct Hx1 as (Hsh & Hocc & _). subst N1. cbn [shape_ok occupied_ok xabs nenum] in Hsh, Hocc, Ek1. fold hN kN cN in Hsh, Hocc, Ek1.
+  rewrite E1 in Hocc, Ek1. change (N.to_nat 1) with 1%nat in Hocc, Ek1.
+  assert (Hn0 : xch n' = cN) by (rewrite <- EN; reflexivity).
+  clear EN Hk1. clearbody cN. destruct cN as [|[c0|] rest]; cbn [firstn forallb] in Hocc; try discriminate Hocc; try discriminate Hsh.
+  cbn [firstn somes length lanes combine] in Ek1.
+  assert (Hin : In (lane kN 0, c0) (kids (X4 hd4 keys ch))).
+  { eapply in_rem_key. rewrite <- Ek1. left. reflexivity. }
+  exists (lane kN 0), c0. split; [exact Hin|]. split; [rewrite Hn0; reflexivity|]. cbn [nth omap].
+  pose proof (Hst _ _ Hin) as Hs0.
+  destruct c0 as [a gk tk v|ca cn].
+  - left. exists a, gk, tk, v. split; [reflexivity|]. cbn [strip xt_is_leaf cref aref hc_is_leaf].
+    pose proof (stored_load _ _ Hs0) as Hl0. cbn [aref aobj] in Hl0. rewrite Hl0. split; reflexivity.
+  - right. cbn [strip xt_is_leaf cref aref hc_is_leaf hc_hdr_of xt_hdr_of xt_with_hdr hc_with_hdr].
+    pose proof (stored_load _ _ Hs0) as Hl0. cbn [aref aobj] in Hl0. rewrite Hl0.
+    rewrite (h_hdr_stored _ _ _ Hs0), xh_xmap, !xh_s_node, s_node_s_node.
+    set (H1 := g4_h1 hN kN (xh cn)).
+    exists ca, cn, (N.to_nat (add32 (N.of_nat (xplen H1)) (add32 (N.of_nat (xplen hN)) 1))), (xprefix H1).
+    split; [reflexivity|]. split; [|split].
+    + rewrite xset_hdr_s_node, xh_xmap. reflexivity.
+    + reflexivity.
+    + subst H1. unfold g4_h1, hs_prefix. cbn [xprefix w_prefix]. rewrite length_gcopy by lia. reflexivity.
+Qed.
+
+(* pools of cleared nodes have the array sizes of their types *)
+Lemma zero_pool_shapes : forall {A} (q : @pool A), zero_pool q -> pool_shapes q.
+Proof.
+  intros A q Hq. apply Forall_forall. intros n Hn. pose proof (proj1 (Forall_forall _ _) Hq n Hn) as Hz. cbv beta in Hz.
+  rewrite (is_zero_eq n Hz). apply shape_xzero.
+Qed.
+
+(* a node4 left with one inner child: the merged path length fits the uint32 field (the model computes it in nat) *)
+Definition afit4 (n : xnode atree) : Prop :=
+  match n with
+  | X4 h _ _ => forall b' ca cn, In (b', AInner ca cn) (kids n) -> N.of_nat (xplen (xh cn)) + N.of_nat (xplen h) + 1 < M32
+  | _ => True
+  end.
+
+Lemma hc_inner_cref : forall n : xnode atree, hc_inner (xmap cref n) = CNode (xmap aref n).
+Proof.
+  intros n. unfold hc_inner. rewrite xmap_xmap. f_equal.
+Qed.
+
+(* (ref *nodeRef).deleteChild(b) on the two images of an annotated node *)
+Lemma gdel_rel : forall h a (n : xnode atree) b os (pat : @pool atree),
+  stored h (AInner a n) -> b < 256 -> xfind n b <> None -> zero_pool pat -> afit4 n ->
+  let GH := g_deleteChild hc_inner (hc_is_leaf h) (hc_hdr_of h) hc_with_hdr (xmap cref n) b os (map (xmap cref) pat) in
+  let XD := xdel_child (xmap strip n) b os (map (xmap strip) pat) in
+  exists pat', zero_pool pat' /\ snd GH = map (xmap cref) pat' /\ snd XD = map (xmap strip) pat' /\
+   ((exists n', fst GH = Some (CNode (xmap aref n')) /\ fst XD = XInner (xmap strip n') /\ xwf n' /\
+                (forall b' c, In (b', c) (kids n') -> In (b', c) (kids n))) \/
+    (exists b' a' gk tk v, In (b', ALeaf a' gk tk v) (kids n) /\ fst GH = Some (CRef a') /\ fst XD = XLeaf gk tk v) \/
+    (exists b' ca cn pl px, In (b', AInner ca cn) (kids n) /\
+       fst GH = Some (CHdr ca (w_prefix px (w_plen pl (xh cn)))) /\ fst XD = XInner (xset_hdr (xmap strip cn) pl px) /\
+       length px = maxPrefixLen)).
+Proof.
+  intros h a n b os pat Hst Hb Hf Hzp Hfit GH XD.
+  destruct (stored_inv _ _ _ Hst) as (Hl & Hx & Hk).
+  assert (Hpres : assoc b (nenum (xabs n)) <> None).
+  { rewrite <- nfind_spec by (try apply Hx; exact Hb). rewrite <- xfind_abs by exact Hx. exact Hf. }
+  destruct (xdel_sim n b os pat Hx Hzp Hb Hpres) as (Eabs & Hx').
+  destruct (ndel_spec (xabs n) b (proj2 (proj2 Hx)) Hb Hpres) as (_ & En & _).
+  assert (Hsub : forall b' c, In (b', c) (kids (fst (xdel n b os pat))) -> In (b', c) (kids n)).
+  { intros b' c Hin. unfold kids in Hin. rewrite Eabs, En in Hin. eapply in_rem_key. exact Hin. }
+  pose proof (xdel_pool_zero n b os pat Hzp) as Hzp'.
+  pose proof (zero_pool_shapes _ (zero_pool_map cref pat Hzp)) as Hps.
+  pose proof (xdel_xmap strip n b os pat) as NX. pose proof (xdel_xmap cref n b os pat) as NH.
+  assert (Hsh : shape_ok (xmap cref n) = true) by (rewrite shape_ok_xmap; apply Hx).
+  subst GH XD. unfold g_deleteChild, xdel_child. rewrite xkind_xmap.
+  destruct n as [hd keys ch|hd keys ch|hd idx ch|hd ch]; cbn [xkind].
+  - cbn [xmap] in *.
+    pose proof (g4_rel h hd keys ch b os pat Hx Hk Hb Hf Hzp) as R. cbv zeta in R. cbn [xmap] in R.
+    pose proof (xdel4_xmap strip hd keys ch b os pat) as N4X.
+    set (n' := fst (xdel4 hd keys ch b os pat)) in *.
+    assert (Hpl : xplen (xh n') = xplen hd).
+    { subst n'. unfold xdel4. destruct (_ =? -1)%Z; cbn [xh xlen]; destruct (_ =? 1); reflexivity. }
+    assert (Hk4 : xkind n' = K4).
+    { subst n'. unfold xdel4. destruct (_ =? -1)%Z; cbn [xh xlen]; destruct (_ =? 1); reflexivity. }
+    assert (Hi : (searchNode4 keys b < 4)%Z).
+    { cbn [xfind] in Hf. destruct (searchNode4_range keys b) as [E|E]; [lia|].
+      destruct (xwf4_inv _ _ _ Hx) as (_ & _ & Hl4 & _).
+      destruct (Z.ltb_spec (searchNode4 keys b) (Z.of_N (xlen hd))) as [L|L]; [lia|].
+      rewrite Bool.andb_false_r in Hf. contradiction Hf. reflexivity. }
+    assert (Hco : collapse_ok (fst (xdel4 hd keys (map (omap strip) ch) b os (map (xmap strip) pat)))).
+    { rewrite N4X. cbn [fst]. destruct n' as [h' k' c'|h' k' c'|h' k' c'|h' c']; try discriminate Hk4.
+      cbn [xmap collapse_ok]. intros E1. rewrite nth_map_omap.
+      destruct R as [(Hne & _)|(_ & _ & _ & b' & c & Hin & Hn0 & _)]; [contradiction Hne|].
+      cbn [xch] in Hn0. rewrite Hn0. cbn [omap]. destruct c as [a' gk tk v|ca cn]; cbn [strip]; [exact I|].
+      rewrite xh_xmap. cbn [xh] in Hpl. rewrite Hpl. exact (Hfit b' ca cn Hin). }
+    rewrite (gen_node4_deleteChild_eq hd keys (map (omap strip) ch) b os (map (xmap strip) pat)) in R;
+      [|change (shape_ok (xmap strip (X4 hd keys ch)) = true); rewrite shape_ok_xmap; apply Hx|exact Hi|exact Hco].
+    unfold xdel_child in R. cbn [xdel fst snd] in R |- *.
+    destruct (g_node4_deleteChild hc_inner (hc_is_leaf h) (hc_hdr_of h) hc_with_hdr (X4 hd keys (map (omap cref) ch)) b os (map (xmap cref) pat)) as [rH pH].
+    cbn [fst snd] in R |- *.
+    destruct R as [(Hne & EX & EH)|(E1 & EpX & EpH & b' & c & Hin & Hn0 & Hc)].
+    + injection EX as EX1 EX2. injection EH as -> ->.
+      exists pat. split; [exact Hzp|]. split; [reflexivity|]. split; [exact EX2|].
+      left. exists n'. split; [reflexivity|]. split; [|split].
+      * exact EX1.
+      * exact Hx'.
+      * exact Hsub.
+    + exists (put (xclear n') pat). split; [apply put_clear_zero; exact Hzp|]. split; [exact EpH|]. split; [exact EpX|].
+      right. destruct Hc as [(a' & gk & tk & v & -> & EX & EH)|(ca & cn & pl & px & -> & EX & EH & Hlen)].
+      * left. exists b', a', gk, tk, v. injection EX as EX. auto.
+      * right. exists b', ca, cn, pl, px. injection EX as EX. split; [exact Hin|]. split; [exact EH|]. split; [exact EX|].
+        rewrite Hlen. apply (xwf_prefix_len cn). destruct (stored_inv _ _ _ (Hk _ _ Hin)) as (_ & Hxc & _). exact Hxc.
+  - cbn [xmap] in *. rewrite gen_node16_deleteChild_eq; try assumption.
+    2:{ apply (del16_hyps_from_xwf hd keys ch b Hx Hf). }
+    cbn [xdel] in NX, NH |- *. rewrite NX, NH. cbn [fst snd].
+    exists (snd (xdel (X16 hd keys ch) b os pat)). split; [exact Hzp'|]. split; [reflexivity|]. split; [reflexivity|].
+    left. exists (fst (xdel (X16 hd keys ch) b os pat)). rewrite hc_inner_cref. auto.
+  - cbn [xmap] in *. destruct (del48_hyps_from_xwf hd idx ch b Hx Hf) as (Hb1 & Hb2).
+    rewrite gen_node48_deleteChild_eq; try assumption.
+    cbn [xdel] in NX, NH |- *. rewrite NX, NH. cbn [fst snd].
+    exists (snd (xdel (X48 hd idx ch) b os pat)). split; [exact Hzp'|]. split; [reflexivity|]. split; [reflexivity|].
+    left. exists (fst (xdel (X48 hd idx ch) b os pat)). rewrite hc_inner_cref. auto.
+  - cbn [xmap] in *. rewrite gen_node256_deleteChild_eq; try assumption.
+    cbn [xdel] in NX, NH |- *. rewrite NX, NH. cbn [fst snd].
+    exists (snd (xdel (X256 hd ch) b os pat)). split; [exact Hzp'|]. split; [reflexivity|]. split; [reflexivity|].
+    left. exists (fst (xdel (X256 hd ch) b os pat)). rewrite hc_inner_cref. auto.
+Qed.
+
+(* ---- a *nodeRef that points into the tree from outside the subtree it holds ---- *)
+Definition slot_out (ref : slot) (cur : atree) : Prop :=
+  match ref with SCell a0 _ => ~ live cur a0 | SRoot => True | SNil => False end.
+(* what a step on the subtree cur held in *ref may change: the footprint of cur, addresses allocated by the
+   step, and the cell *ref itself, which ends holding r' *)
+Definition framed (h : heap) (root : href) (h' : heap) (root' : href) (ref : slot) (cur : atree) (r' : href) : Prop :=
+  (next h <= next h')%nat /\
+  match ref with
+  | SNil => False
+  | SRoot => root' = r' /\ (forall x, (x < next h \/ next h' <= x)%nat -> ~ live cur x -> load h' x = load h x)
+  | SCell a0 i0 => root' = root /\ (forall x, (x < next h \/ next h' <= x)%nat -> ~ live cur x -> x <> a0 -> load h' x = load h x) /\
+      exists nd, load h a0 = Some (HNode nd) /\ (i0 < length (xch nd))%nat /\
+                 load h' a0 = Some (HNode (s_children (set_at i0 r' (xch nd)) nd))
+  end.
+
+Lemma set_at_same : forall {A} i (v : A) l, nth_error l i = Some v -> set_at i v l = l.
+Proof.
+  intros A. induction i as [|i IH]; intros v [|x l] H; cbn [nth_error set_at] in *; try discriminate.
+  - injection H as ->. reflexivity.
+  - f_equal. apply IH. exact H.
+Qed.
+Lemma s_children_id : forall {C} (n : xnode C), s_children (xch n) n = n.
+Proof. intros C [ | | | ]; reflexivity. Qed.
+Lemma xch_s_children : forall {C} v (n : xnode C), xch (s_children v n) = v.
+Proof. intros C v [ | | | ]; reflexivity. Qed.
+
+Lemma slot_read_inv : forall h root a0 i0 r, slot_read h root (SCell a0 i0) = Some r ->
+  exists nd, load h a0 = Some (HNode nd) /\ nth_error (xch nd) i0 = Some r /\ (i0 < length (xch nd))%nat.
+Proof.
+  intros h root a0 i0 r H. cbn [slot_read] in H. destruct (load h a0) as [[gk tk v|nd]|]; try discriminate.
+  exists nd. split; [reflexivity|]. split; [exact H|]. apply nth_error_Some. rewrite H. discriminate.
+Qed.
+
+(* a step that changed the heap only inside the footprint, then did not touch *ref *)
+Lemma framed_keep : forall h root ref cur r0 h1,
+  slot_read h root ref = Some r0 -> slot_out ref cur -> next h1 = next h ->
+  (forall x, ~ live cur x -> load h1 x = load h x) ->
+  framed h root h1 root ref cur r0.
+Proof.
+  intros h root ref cur r0 h1 Hrd Hout Hn Hfr. split; [lia|].
+  destruct ref as [| |a0 i0]; cbn [slot_out] in Hout; [contradiction| |].
+  - cbn [slot_read] in Hrd. injection Hrd as ->. split; [reflexivity|]. intros x _ Hx. apply Hfr. exact Hx.
+  - destruct (slot_read_inv _ _ _ _ _ Hrd) as (nd & Hl & Hnth & Hlt).
+    split; [reflexivity|]. split; [intros x _ Hx _; apply Hfr; exact Hx|].
+    exists nd. split; [exact Hl|]. split; [exact Hlt|].
+    replace (set_at i0 r0 (xch nd)) with (xch nd) by (symmetry; apply set_at_same; exact Hnth). rewrite s_children_id, (Hfr a0 Hout). exact Hl.
+Qed.
+
+(* ... then wrote r' into *ref *)
+Lemma framed_write : forall h root ref cur r0 r' h1,
+  slot_read h root ref = Some r0 -> slot_out ref cur -> next h1 = next h ->
+  (forall x, ~ live cur x -> load h1 x = load h x) ->
+  exists h' root', slot_write h1 root ref r' = Some (h', root') /\ framed h root h' root' ref cur r' /\
+                   (forall x, live cur x -> load h' x = load h1 x) /\ next h' = next h1.
+Proof.
+  intros h root ref cur r0 r' h1 Hrd Hout Hn Hfr.
+  destruct ref as [| |a0 i0]; cbn [slot_out] in Hout; [contradiction| |].
+  - exists h1, r'. split; [reflexivity|]. split; [|auto]. split; [lia|]. split; [reflexivity|].
+    intros x _ Hx. apply Hfr. exact Hx.
+  - destruct (slot_read_inv _ _ _ _ _ Hrd) as (nd & Hl & Hnth & Hlt).
+    cbn [slot_write]. rewrite (Hfr a0 Hout), Hl.
+    replace (i0 <? length (xch nd))%nat with true by (symmetry; apply Nat.ltb_lt; exact Hlt).
+    eexists _, _. split; [reflexivity|]. split.
+    + split; [cbn [next store]; lia|]. split; [reflexivity|]. split.
+      * intros x _ Hx Hne. rewrite load_store_other by exact Hne. apply Hfr. exact Hx.
+      * exists nd. split; [exact Hl|]. split; [exact Hlt|]. apply load_store_same.
+    + split; [|reflexivity]. intros x Hx. apply load_store_other. intros ->. contradiction.
+Qed.
+
+Lemma framed_read : forall h root h' root' ref cur r', framed h root h' root' ref cur r' ->
+  slot_read h' root' ref = Some r'.
+Proof.
+  intros h root h' root' ref cur r' (_ & H). destruct ref as [| |a0 i0]; [contradiction| |].
+  - destruct H as (-> & _). reflexivity.
+  - destruct H as (_ & _ & nd & Hl & Hlt & Hl'). cbn [slot_read]. rewrite Hl', xch_s_children.
+    apply nth_error_set_at_eq. exact Hlt.
+Qed.
+
+Lemma live_kid_root : forall a n b c, In (b, c) (kids n) -> live (AInner a n) (aref c).
+Proof. intros. eapply live_kid; [eassumption|apply live_root]. Qed.
+
+(* sub-kids: a node at the same address with a sub-list of the children is again stored / separated *)
+Lemma stored_subnode : forall h h' a n n', stored h (AInner a n) -> sep (AInner a n) ->
+  load h' a = Some (HNode (xmap aref n')) -> xwf n' ->
+  (forall b c, In (b, c) (kids n') -> In (b, c) (kids n)) ->
+  (forall x, x <> a -> live (AInner a n) x -> load h' x = load h x) ->
+  stored h' (AInner a n') /\ sep (AInner a n') /\ (forall x, live (AInner a n') x -> live (AInner a n) x).
+Proof.
+  intros h h' a n n' Hst Hsep Hl' Hx' Hsub Hfr.
+  destruct (stored_inv _ _ _ Hst) as (_ & _ & Hk). destruct (sep_inv _ _ Hsep) as (S1 & S2 & S3).
+  split; [|split].
+  - constructor; [exact Hl'|exact Hx'|]. intros b c Hin. apply (stored_frame h); [apply (Hk b c); auto|].
+    intros x Hlx. apply Hfr; [intros ->; exact (S2 b c (Hsub _ _ Hin) Hlx)|eapply live_kid; eauto].
+  - constructor; [intros b c Hin; apply (S1 b c); auto|intros b c Hin; apply (S2 b c); auto|].
+    intros b1 c1 b2 c2 x H1 H2. apply S3; auto.
+  - intros x Hlx. destruct (live_inv _ _ Hlx) as [->|(a1 & n1 & b & c & E & Hin & Hl)].
+    + apply (live_root (AInner a n)).
+    + injection E as <- <-. eapply live_kid; [apply Hsub; exact Hin|exact Hl].
+Qed.
+
+(* ref.deleteChild(b) where *ref holds the stored node a and b is a key of it: the model's xdel_child *)
+Lemma deleteChild_step : forall h root ref a n b os pm,
+  stored h (AInner a n) -> sep (AInner a n) -> slot_read h root ref = Some (Some a) -> slot_out ref (AInner a n) ->
+  b < 256 -> xfind n b <> None -> zero_pool pm -> afit4 n ->
+  exists h' root' cur',
+    h_deleteChild h root ref b os (map_pool pm) =
+      Some (h', root', skipn (xdel_gets (xmap strip n)) os, map_pool (snd (xdel_child (xmap strip n) b os pm))) /\
+    strip cur' = fst (xdel_child (xmap strip n) b os pm) /\
+    stored h' cur' /\ sep cur' /\ (forall x, live cur' x -> live (AInner a n) x) /\
+    framed h root h' root' ref (AInner a n) (Some (aref cur')) /\ next h' = next h.
+Proof.
+  intros h root ref a n b os pm Hst Hsep Hrd Hout Hb Hf Hzp Hfit.
+  destruct (stored_inv _ _ _ Hst) as (Hl & Hx & Hk). destruct (sep_inv _ _ Hsep) as (S1 & S2 & S3).
+  pose proof (gdel_rel h a n b os (apool pm) Hst Hb Hf (apool_zero _ Hzp) Hfit) as R. cbv zeta in R.
+  rewrite (apool_strip _ Hzp) in R.
+  unfold h_deleteChild. rewrite Hrd, Hl. rewrite (pool_fwd _ Hzp), xmap_xmap.
+  change (xmap (fun c : atree => CRef (aref c)) n) with (xmap cref n).
+  rewrite xdel_gets_xmap, <- (xdel_gets_xmap strip n).
+  destruct (g_deleteChild hc_inner (hc_is_leaf h) (hc_hdr_of h) hc_with_hdr (xmap cref n) b os (map (xmap cref) (apool pm))) as [rH pH].
+  destruct R as (pat' & Hzp' & EpH & EpX & R). cbn [fst snd] in EpH, R. subst pH.
+  rewrite (pool_back _ Hzp'), <- EpX.
+  destruct R as [(n' & -> & EX & Hx' & Hsub)|[(b' & a' & gk & tk & v & Hin & -> & EX)|(b' & ca & cn & pl & px & Hin & -> & EX & Hlen)]].
+  - (* the node stays, at its address *)
+    set (h1 := store h a (HNode (xmap aref n'))).
+    destruct (stored_subnode h h1 a n n' Hst Hsep) as (T1 & T2 & T3); try assumption.
+    { apply load_store_same. } { intros x Hne _. apply load_store_other. exact Hne. }
+    exists h1, root, (AInner a n'). split; [reflexivity|]. split; [cbn [strip]; symmetry; exact EX|].
+    split; [exact T1|]. split; [exact T2|]. split; [exact T3|]. split; [|reflexivity].
+    apply (framed_keep h root ref (AInner a n) (Some a) h1 Hrd Hout); [reflexivity|].
+    intros x Hx0. apply load_store_other. intros ->. apply Hx0. apply (live_root (AInner a n)).
+  - (* collapse onto a leaf *)
+    destruct (framed_write h root ref (AInner a n) (Some a) (Some a') h Hrd Hout) as (h' & root' & Hw & Hfr & Hsame & Hnx); auto.
+    rewrite Hw. exists h', root', (ALeaf a' gk tk v). split; [reflexivity|]. split; [symmetry; exact EX|].
+    pose proof (Hk _ _ Hin) as Hs0. pose proof (live_kid_root a n _ _ Hin) as Hl0. cbn [aref] in Hl0.
+    split; [|split; [constructor|split; [|split; [exact Hfr|exact Hnx]]]].
+    + constructor. rewrite (Hsame a' Hl0). pose proof (stored_load _ _ Hs0) as E. exact E.
+    + intros x Hlx. apply live_leaf in Hlx. subst x. exact Hl0.
+  - (* collapse onto an inner child: its header is rewritten through the pointer, then it is linked *)
+    pose proof (Hk _ _ Hin) as Hs0. destruct (stored_inv _ _ _ Hs0) as (Hlc & Hxc & Hkc).
+    pose proof (live_kid_root a n _ _ Hin) as Hl0. cbn [aref] in Hl0.
+    rewrite Hlc.
+    set (hd := w_prefix px (w_plen pl (xh cn))).
+    set (h1 := store h ca (HNode (s_node hd (xmap aref cn)))).
+    destruct (framed_write h root ref (AInner a n) (Some a) (Some ca) h1 Hrd Hout) as (h' & root' & Hw & Hfr & Hsame & Hnx).
+    { reflexivity. } { intros x Hx0. apply load_store_other. intros ->. contradiction. }
+    rewrite Hw. exists h', root', (AInner ca (xset_hdr cn pl px)). split; [reflexivity|].
+    split; [cbn [strip]; rewrite <- xset_hdr_xmap; symmetry; exact EX|].
+    destruct (xset_hdr_xwf cn pl px Hxc Hlen) as (Hxc' & Ekc).
+    assert (Ekids : kids (xset_hdr cn pl px) = kids cn) by exact Ekc.
+    pose proof (S1 _ _ Hin) as Hsc. destruct (sep_inv _ _ Hsc) as (C1 & C2 & C3).
+    assert (Hlive : forall x, live (AInner ca (xset_hdr cn pl px)) x -> live (AInner ca cn) x).
+    { intros x Hlx. destruct (live_inv _ _ Hlx) as [->|(a1 & n1 & b1 & c1 & E & Hin1 & Hl1)]; [apply (live_root (AInner ca cn))|].
+      injection E as <- <-. rewrite Ekids in Hin1. eapply live_kid; eauto. }
+    split; [|split; [|split; [|split; [exact Hfr|exact Hnx]]]].
+    + constructor.
+      * rewrite (Hsame ca Hl0). subst h1. rewrite load_store_same. rewrite xset_hdr_s_node, <- s_node_xmap. reflexivity.
+      * exact Hxc'.
+      * intros b1 c1 Hin1. rewrite Ekids in Hin1. apply (stored_frame h); [apply (Hkc _ _ Hin1)|].
+        intros x Hlx. assert (Hlx' : live (AInner a n) x) by (eapply live_kid; [exact Hin|eapply live_kid; eauto]).
+        rewrite (Hsame x Hlx'). subst h1. apply load_store_other. intros ->. exact (C2 _ _ Hin1 Hlx).
+    + constructor; intros; rewrite ?Ekids in *; eauto.
+    + intros x Hlx. eapply live_kid; [exact Hin|apply Hlive; exact Hlx].
+Qed.
+
+(* every node4 with an inner child: the merged path fits a uint32 (see afit4) *)
+Inductive afit : atree -> Prop :=
+| afit_leaf : forall a gk tk v, afit (ALeaf a gk tk v)
+| afit_inner : forall a n, afit4 n -> (forall b c, In (b, c) (kids n) -> afit c) -> afit (AInner a n).
+Lemma afit_inv : forall a n, afit (AInner a n) -> afit4 n /\ (forall b c, In (b, c) (kids n) -> afit c).
+Proof. intros a n H. inversion H; subst. auto. Qed.
+
+(* the outcome of the loop of Delete on the subtree cur held in *ref against the model's xdelete_in *)
+Definition del_ok (size : Z) (os : list choice) (pm : xpool) (h : heap) (root : href) (ref : slot) (cur : atree)
+                  (r : mres bool) (m : xdres * list choice * xpool) : Prop :=
+  match r with
+  | MDone h' root' size' os' p' ret =>
+    match fst (fst m) with
+    | XDDone t' => ret = true /\ size' = (size - 1)%Z /\ os' = snd (fst m) /\ p' = map_pool (snd m) /\
+        zero_pool (snd m) /\ next h' = next h /\
+        exists cur', strip cur' = t' /\ stored h' cur' /\ sep cur' /\ (forall x, live cur' x -> live cur x) /\
+                     framed h root h' root' ref cur (Some (aref cur'))
+    | XDAbsent => ret = false /\ h' = h /\ root' = root /\ size' = size /\ os' = os /\ p' = map_pool pm /\ snd m = pm
+    | XDFuel => False
+    end
+  | MPanic => False
+  | MFuel => fst (fst m) = XDFuel
+  end.
+
+Lemma snd_xdel_child : forall n b os p, snd (xdel_child n b os p) = snd (xdel n b os p).
+Proof. intros [ | | | ] b os p; reflexivity. Qed.
+
+Lemma kid_assoc : forall (n : xnode atree) b c, xwf n -> In (b, c) (kids n) -> assoc b (kids n) = Some c.
+Proof. intros n b c Hx H. apply in_assoc; [apply nenum_sorted; apply Hx|exact H]. Qed.
+
+(* the step up: the child's cell was written in place, the parent is the model's xreplace *)
+Lemma del_up : forall size os pm h root ref a n b c i R M,
+  stored h (AInner a n) -> sep (AInner a n) -> slot_read h root ref = Some (Some a) -> slot_out ref (AInner a n) ->
+  b < 256 -> In (b, c) (kids n) -> nth_error (xch n) i = Some (Some c) ->
+  (forall c', xreplace n b c' = s_children (set_at i (Some c') (xch n)) n) ->
+  del_ok size os pm h root (SCell a i) c R M ->
+  del_ok size os pm h root ref (AInner a n) R
+    (match fst (fst M) with XDDone c' => (XDDone (XInner (xreplace (xmap strip n) b c')), snd (fst M), snd M) | _ => M end).
+Proof.
+  intros size os pm h root ref a n b c i R M Hst Hsep Hrd Hout Hb Hin Hnth Hrep Hok.
+  destruct (stored_inv _ _ _ Hst) as (Hl & Hx & Hk). destruct (sep_inv _ _ Hsep) as (S1 & S2 & S3).
+  destruct R as [h' root' size' os' p' ret| |]; destruct M as [[res osm] pmm]; cbn [del_ok fst snd] in *;
+    destruct res as [t'| |]; cbn [fst snd]; try exact Hok; try discriminate Hok.
+  destruct Hok as (-> & -> & -> & -> & Hzp & Hnx & cur' & <- & Hst' & Hsep' & Hsub & Hfr).
+  split; [reflexivity|]. split; [reflexivity|]. split; [reflexivity|]. split; [reflexivity|]. split; [exact Hzp|].
+  split; [exact Hnx|].
+  destruct Hfr as (_ & -> & Hframe & nd & Hla & Hlt & Hla').
+  rewrite Hl in Hla. injection Hla as <-.
+  assert (Ha : assoc b (nenum (xabs n)) <> None) by (pose proof (kid_assoc n b c Hx Hin) as E; unfold kids in E; rewrite E; discriminate).
+  destruct (xreplace_xwf n b cur' Hx Hb Ha) as (Hxr & Ekr & _).
+  assert (Hkr : forall b1 c1, In (b1, c1) (kids (xreplace n b cur')) ->
+                  (b1 = b /\ c1 = cur') \/ (b1 <> b /\ In (b1, c1) (kids n))).
+  { intros b1 c1 H1. pose proof (kid_assoc _ _ _ Hxr H1) as A1. unfold kids in A1. rewrite Ekr in A1.
+    destruct (N.eq_dec b1 b) as [->|Hne].
+    - rewrite assoc_repl_key_same in A1 by exact Ha. injection A1 as <-. left. auto.
+    - rewrite assoc_repl_key_other in A1 by exact Hne. right. split; [exact Hne|]. apply assoc_in. exact A1. }
+  assert (Hlc : forall x, live c x -> live (AInner a n) x) by (intros x Hx0; eapply live_kid; eauto).
+  assert (Hframe' : forall x, ~ live c x -> x <> a -> load h' x = load h x).
+  { intros x H1 H2. apply Hframe; [lia|exact H1|exact H2]. }
+  exists (AInner a (xreplace n b cur')). split; [cbn [strip]; rewrite xreplace_xmap; reflexivity|].
+  split; [|split; [|split]].
+  - constructor.
+    + rewrite Hla'. rewrite xch_xmap. change (Some (aref cur')) with (omap aref (Some cur')).
+      unfold href. rewrite <- (map_set_at (omap aref) i (Some cur') (xch n)), s_children_xmap, <- Hrep. reflexivity.
+    + exact Hxr.
+    + intros b1 c1 H1. destruct (Hkr _ _ H1) as [(-> & ->)|(Hne & Hin1)]; [exact Hst'|].
+      apply (stored_frame h); [apply (Hk _ _ Hin1)|]. intros x Hlx. apply Hframe'.
+      * intros Hcx. exact (S3 b1 c1 b c x Hin1 Hin Hne Hlx Hcx).
+      * intros ->. exact (S2 _ _ Hin1 Hlx).
+  - constructor.
+    + intros b1 c1 H1. destruct (Hkr _ _ H1) as [(-> & ->)|(Hne & Hin1)]; [exact Hsep'|apply (S1 _ _ Hin1)].
+    + intros b1 c1 H1 Hla1. destruct (Hkr _ _ H1) as [(-> & ->)|(Hne & Hin1)].
+      * exact (S2 _ _ Hin (Hsub _ Hla1)).
+      * exact (S2 _ _ Hin1 Hla1).
+    + intros b1 c1 b2 c2 x H1 H2 Hne L1 L2.
+      destruct (Hkr _ _ H1) as [(-> & ->)|(Hne1 & Hin1)]; destruct (Hkr _ _ H2) as [(-> & ->)|(Hne2 & Hin2)].
+      * contradiction.
+      * exact (S3 b c b2 c2 x Hin Hin2 Hne (Hsub _ L1) L2).
+      * exact (S3 b1 c1 b c x Hin1 Hin Hne L1 (Hsub _ L2)).
+      * exact (S3 b1 c1 b2 c2 x Hin1 Hin2 Hne L1 L2).
+  - intros x Hlx. destruct (live_inv _ _ Hlx) as [->|(a1 & n1 & b1 & c1 & E & H1 & L1)]; [apply (live_root (AInner a n))|].
+    injection E as <- <-. destruct (Hkr _ _ H1) as [(-> & ->)|(Hne & Hin1)].
+    + apply Hlc. apply Hsub. exact L1.
+    + eapply live_kid; eauto.
+  - cbn [aref]. split; [lia|].
+    assert (Hroot : forall x, ~ live (AInner a n) x -> load h' x = load h x).
+    { intros x Hx0. apply Hframe'; [intros Hc; apply Hx0; apply Hlc; exact Hc|].
+      intros ->. apply Hx0. apply (live_root (AInner a n)). }
+    destruct ref as [| |a0 i0]; cbn [slot_out] in Hout; [contradiction| |].
+    + cbn [slot_read] in Hrd. injection Hrd as ->. split; [reflexivity|]. intros x _ Hx0. apply Hroot. exact Hx0.
+    + destruct (slot_read_inv _ _ _ _ _ Hrd) as (nd0 & Hl0 & Hn0 & Hlt0).
+      split; [reflexivity|]. split; [intros x _ Hx0 _; apply Hroot; exact Hx0|].
+      exists nd0. split; [exact Hl0|]. split; [exact Hlt0|].
+      unfold href. replace (set_at i0 (Some a) (xch nd0)) with (xch nd0) by (symmetry; apply set_at_same; exact Hn0).
+      rewrite s_children_id, (Hroot a0 Hout). exact Hl0.
+Qed.
+
+Definition del_loop_spec (L : nat -> heap -> href -> Z -> list choice -> hpool -> slot -> href -> Z -> mres bool)
+                         (gk tk : list N) : Prop :=
+  forall fuel h root size os pm ref a n d,
+    stored h (AInner a n) -> sep (AInner a n) -> slot_read h root ref = Some (Some a) -> slot_out ref (AInner a n) ->
+    zero_pool pm -> isbytes tk = true -> afit (AInner a n) ->
+    del_ok size os pm h root ref (AInner a n)
+      (L fuel h root size os (map_pool pm) ref (Some a) (Z.of_nat d))
+      (xdelete_in fuel (strip (AInner a n)) gk tk d os pm).
+
+Lemma gm_maxPrefixLen_val : gm_maxPrefixLen = N.of_nat maxPrefixLen.
+Proof. reflexivity. Qed.
+Lemma atag_inner : forall a n, gkind_eqb (atag (AInner a n)) KindLeaf = false.
+Proof. intros a n. cbn [atag]. destruct (xkind n); reflexivity. Qed.
+
+
+
+(* the loop of Delete entered on a LEAF (only the root can be one: the model decides this case in xdo_delete) *)
+Definition del_leaf_spec (L : nat -> heap -> href -> Z -> list choice -> hpool -> slot -> href -> Z -> mres bool) (gk : list N) : Prop :=
+  forall f h root size os p a gk0 tk0 v0 d, stored h (ALeaf a gk0 tk0 v0) ->
+    L (S f) h root size os p SRoot (Some a) d =
+    if beq gk0 gk then MDone h None (size - 1)%Z os p true else MDone h root size os p false.
+
+Lemma alpha_delete_loop_sim : forall keyS, del_loop_spec (fun fuel => g_alpha_delete_loop1 fuel keyS) keyS keyS.
+Proof.
+  intros keyS. unfold del_loop_spec. induction fuel as [|f IH]; intros h root size os pm ref a n d Hst Hsep Hrd Hout Hzp Hbt Hfit.
+  - reflexivity.
+  - destruct (stored_inv _ _ _ Hst) as (Hl & Hx & Hk). destruct (sep_inv _ _ Hsep) as (S1 & S2 & S3).
+    destruct (afit_inv _ _ Hfit) as (F4 & Fk).
+    pose proof (h_tag_stored _ _ Hst) as Ht. cbn [aref] in Ht.
+    pose proof (xwf_prefix_len n Hx) as Hpl.
+    cbn [g_alpha_delete_loop1 href_is_nil negb]. rewrite Ht, atag_inner, (h_ref_node_stored _ _ _ Hst).
+    unfold h_prefixLen. rewrite (h_hdr_stored _ _ _ Hst).
+    cbn [xdelete_in strip]. rewrite xh_xmap. cbn [xabs_hdr prefixLen].
+    destruct (Nat.eqb_spec (xplen (xh n)) 0) as [E0|E0].
+    + replace (N.of_nat (xplen (xh n)) =? 0) with true by lia. cbn [negb andb]. rewrite E0, Nat.add_0_r.
+      rewrite idx_bytes_nat.
+      destruct (nth_error keyS (d)) as [b|] eqn:Enth.
+      2:{ replace (Z.of_nat (length keyS) <=? Z.of_nat (d))%Z with true
+            by (symmetry; apply Z.leb_le; apply nth_error_None in Enth; lia).
+          repeat split. }
+      replace (Z.of_nat (length keyS) <=? Z.of_nat (d))%Z with false
+        by (symmetry; apply Z.leb_gt; assert (d < length keyS)%nat by (apply nth_error_Some; rewrite Enth; discriminate); lia).
+      pose proof (nth_byte _ _ _ Hbt Enth) as Hb.
+      pose proof (findChild_stored _ _ _ b Hst Hb) as FC. rewrite xfind_xmap.
+      destruct (xfind n b) as [c|] eqn:Ef; cbn [omap].
+      2:{ rewrite FC. cbn [slot_is_nil]. repeat split. }
+      destruct FC as (i & -> & Hnth & Hrep). cbn [slot_is_nil].
+      pose proof (kid_of_find _ _ _ Hx Hb Ef) as Hin. pose proof (Hk _ _ Hin) as Hs.
+      rewrite (slot_read_cell _ _ _ _ _ _ Hst Hnth), (h_tag_stored _ _ Hs).
+      destruct c as [ca gk0 tk0 v0|ca cn]; cbn [strip aref].
+      * cbn [atag gkind_eqb]. destruct (h_cast_leaf_stored _ _ _ _ _ Hs) as (-> & -> & _).
+        destruct (beq gk0 keyS); [|repeat split].
+        assert (Hf : xfind n b <> None) by (rewrite Ef; discriminate).
+        destruct (deleteChild_step _ _ _ _ _ b os _ Hst Hsep Hrd Hout Hb Hf Hzp F4) as (h' & root' & cur' & -> & Es & T1 & T2 & T3 & T4 & T5).
+        cbn [del_ok fst snd]. repeat (split; [reflexivity|]).
+        split; [rewrite snd_xdel_child; apply xdel_pool_zero; exact Hzp|].
+        split; [exact T5|]. exists cur'. auto.
+      * rewrite atag_inner.
+        replace (Z.of_nat d + 1)%Z with (Z.of_nat (S (d))) by lia.
+        pose proof (IH h root size os pm (SCell a i) ca cn (S (d)) Hs (S1 _ _ Hin)
+                      (slot_read_cell _ root _ _ _ _ Hst Hnth) (S2 _ _ Hin) Hzp Hbt (Fk _ _ Hin)) as R.
+        cbn [strip] in R.
+        apply (del_up size os pm h root ref a n b (AInner ca cn) i _ _ Hst Hsep Hrd Hout Hb Hin Hnth Hrep) in R.
+        exact R.
+    + replace (N.of_nat (xplen (xh n)) =? 0) with false by lia. cbn [negb andb].
+      rewrite (gen_checkPrefix_eq (xh n) keyS d Hpl). rewrite gm_maxPrefixLen_val.
+      unfold pl_cap. cbn [xabs_hdr prefixLen].
+      replace (Z.of_nat (checkPrefix (xabs_hdr (xh n)) keyS d) =? Z.of_N (N.min (N.of_nat maxPrefixLen) (N.of_nat (xplen (xh n)))))%Z
+        with (checkPrefix (xabs_hdr (xh n)) keyS d =? Nat.min maxPrefixLen (xplen (xh n)))%nat
+        by (destruct (Nat.eqb_spec (checkPrefix (xabs_hdr (xh n)) keyS d) (Nat.min maxPrefixLen (xplen (xh n))));
+            destruct (Z.eqb_spec (Z.of_nat (checkPrefix (xabs_hdr (xh n)) keyS d)) (Z.of_N (N.min (N.of_nat maxPrefixLen) (N.of_nat (xplen (xh n)))))); try reflexivity; lia).
+      destruct (checkPrefix (xabs_hdr (xh n)) keyS d =? Nat.min maxPrefixLen (xplen (xh n)))%nat; cbn [negb]; [|repeat split].
+      replace (Z.of_nat d + Z.of_N (N.of_nat (xplen (xh n))))%Z with (Z.of_nat (d + xplen (xh n))) by lia.
+      rewrite idx_bytes_nat.
+      destruct (nth_error keyS (d + xplen (xh n))) as [b|] eqn:Enth.
+      2:{ replace (Z.of_nat (length keyS) <=? Z.of_nat (d + xplen (xh n)))%Z with true
+            by (symmetry; apply Z.leb_le; apply nth_error_None in Enth; lia).
+          repeat split. }
+      replace (Z.of_nat (length keyS) <=? Z.of_nat (d + xplen (xh n)))%Z with false
+        by (symmetry; apply Z.leb_gt; assert (d + xplen (xh n) < length keyS)%nat by (apply nth_error_Some; rewrite Enth; discriminate); lia).
+      pose proof (nth_byte _ _ _ Hbt Enth) as Hb.
+      pose proof (findChild_stored _ _ _ b Hst Hb) as FC. rewrite xfind_xmap.
+      destruct (xfind n b) as [c|] eqn:Ef; cbn [omap].
+      2:{ rewrite FC. cbn [slot_is_nil]. repeat split. }
+      destruct FC as (i & -> & Hnth & Hrep). cbn [slot_is_nil].
+      pose proof (kid_of_find _ _ _ Hx Hb Ef) as Hin. pose proof (Hk _ _ Hin) as Hs.
+      rewrite (slot_read_cell _ _ _ _ _ _ Hst Hnth), (h_tag_stored _ _ Hs).
+      destruct c as [ca gk0 tk0 v0|ca cn]; cbn [strip aref].
+      * cbn [atag gkind_eqb]. destruct (h_cast_leaf_stored _ _ _ _ _ Hs) as (-> & -> & _).
+        destruct (beq gk0 keyS); [|repeat split].
+        assert (Hf : xfind n b <> None) by (rewrite Ef; discriminate).
+        destruct (deleteChild_step _ _ _ _ _ b os _ Hst Hsep Hrd Hout Hb Hf Hzp F4) as (h' & root' & cur' & -> & Es & T1 & T2 & T3 & T4 & T5).
+        cbn [del_ok fst snd]. repeat (split; [reflexivity|]).
+        split; [rewrite snd_xdel_child; apply xdel_pool_zero; exact Hzp|].
+        split; [exact T5|]. exists cur'. auto.
+      * rewrite atag_inner.
+        replace (Z.of_nat (d + xplen (xh n)) + 1)%Z with (Z.of_nat (S (d + xplen (xh n)))) by lia.
+        pose proof (IH h root size os pm (SCell a i) ca cn (S (d + xplen (xh n))) Hs (S1 _ _ Hin)
+                      (slot_read_cell _ root _ _ _ _ Hst Hnth) (S2 _ _ Hin) Hzp Hbt (Fk _ _ Hin)) as R.
+        cbn [strip] in R.
+        apply (del_up size os pm h root ref a n b (AInner ca cn) i _ _ Hst Hsep Hrd Hout Hb Hin Hnth Hrep) in R.
+        exact R.
+Qed.
+
+Lemma alpha_delete_leaf : forall keyS, del_leaf_spec (fun fuel => g_alpha_delete_loop1 fuel keyS) keyS.
+Proof.
+  intros keyS f h root size os p a gk0 tk0 v0 d Hs.
+  pose proof (h_tag_stored _ _ Hs) as Ht. cbn [aref atag] in Ht.
+  destruct (h_cast_leaf_stored _ _ _ _ _ Hs) as (Hc & Hg & _).
+  cbn [g_alpha_delete_loop1 href_is_nil negb]. rewrite Ht. cbn [gkind_eqb]. rewrite Hc, Hg.
+  destruct (beq gk0 keyS); reflexivity.
+Qed.
+
+Lemma unsigned_delete_loop_sim : forall keyS, del_loop_spec (fun fuel => g_unsigned_delete_loop1 fuel keyS) keyS keyS.
+Proof.
+  intros keyS. unfold del_loop_spec. induction fuel as [|f IH]; intros h root size os pm ref a n d Hst Hsep Hrd Hout Hzp Hbt Hfit.
+  - reflexivity.
+  - destruct (stored_inv _ _ _ Hst) as (Hl & Hx & Hk). destruct (sep_inv _ _ Hsep) as (S1 & S2 & S3).
+    destruct (afit_inv _ _ Hfit) as (F4 & Fk).
+    pose proof (h_tag_stored _ _ Hst) as Ht. cbn [aref] in Ht.
+    pose proof (xwf_prefix_len n Hx) as Hpl.
+    cbn [g_unsigned_delete_loop1 href_is_nil negb]. rewrite Ht, atag_inner, (h_ref_node_stored _ _ _ Hst).
+    unfold h_prefixLen. rewrite (h_hdr_stored _ _ _ Hst).
+    cbn [xdelete_in strip]. rewrite xh_xmap. cbn [xabs_hdr prefixLen].
+    destruct (Nat.eqb_spec (xplen (xh n)) 0) as [E0|E0].
+    + replace (N.of_nat (xplen (xh n)) =? 0) with true by lia. cbn [negb andb]. rewrite E0, Nat.add_0_r.
+      rewrite idx_bytes_nat.
+      destruct (nth_error keyS (d)) as [b|] eqn:Enth.
+      2:{ replace (Z.of_nat (length keyS) <=? Z.of_nat (d))%Z with true
+            by (symmetry; apply Z.leb_le; apply nth_error_None in Enth; lia).
+          repeat split. }
+      replace (Z.of_nat (length keyS) <=? Z.of_nat (d))%Z with false
+        by (symmetry; apply Z.leb_gt; assert (d < length keyS)%nat by (apply nth_error_Some; rewrite Enth; discriminate); lia).
+      pose proof (nth_byte _ _ _ Hbt Enth) as Hb.
+      pose proof (findChild_stored _ _ _ b Hst Hb) as FC. rewrite xfind_xmap.
+      destruct (xfind n b) as [c|] eqn:Ef; cbn [omap].
+      2:{ rewrite FC. cbn [slot_is_nil]. repeat split. }
+      destruct FC as (i & -> & Hnth & Hrep). cbn [slot_is_nil].
+      pose proof (kid_of_find _ _ _ Hx Hb Ef) as Hin. pose proof (Hk _ _ Hin) as Hs.
+      rewrite (slot_read_cell _ _ _ _ _ _ Hst Hnth), (h_tag_stored _ _ Hs).
+      destruct c as [ca gk0 tk0 v0|ca cn]; cbn [strip aref].
+      * cbn [atag gkind_eqb]. destruct (h_cast_leaf_stored _ _ _ _ _ Hs) as (-> & -> & _).
+        destruct (beq gk0 keyS); [|repeat split].
+        assert (Hf : xfind n b <> None) by (rewrite Ef; discriminate).
+        destruct (deleteChild_step _ _ _ _ _ b os _ Hst Hsep Hrd Hout Hb Hf Hzp F4) as (h' & root' & cur' & -> & Es & T1 & T2 & T3 & T4 & T5).
+        cbn [del_ok fst snd]. repeat (split; [reflexivity|]).
+        split; [rewrite snd_xdel_child; apply xdel_pool_zero; exact Hzp|].
+        split; [exact T5|]. exists cur'. auto.
+      * rewrite atag_inner.
+        replace (Z.of_nat d + 1)%Z with (Z.of_nat (S (d))) by lia.
+        pose proof (IH h root size os pm (SCell a i) ca cn (S (d)) Hs (S1 _ _ Hin)
+                      (slot_read_cell _ root _ _ _ _ Hst Hnth) (S2 _ _ Hin) Hzp Hbt (Fk _ _ Hin)) as R.
+        cbn [strip] in R.
+        apply (del_up size os pm h root ref a n b (AInner ca cn) i _ _ Hst Hsep Hrd Hout Hb Hin Hnth Hrep) in R.
+        exact R.
+    + replace (N.of_nat (xplen (xh n)) =? 0) with false by lia. cbn [negb andb].
+      rewrite (gen_checkPrefix_eq (xh n) keyS d Hpl). rewrite gm_maxPrefixLen_val.
+      unfold pl_cap. cbn [xabs_hdr prefixLen].
+      replace (Z.of_nat (checkPrefix (xabs_hdr (xh n)) keyS d) =? Z.of_N (N.min (N.of_nat maxPrefixLen) (N.of_nat (xplen (xh n)))))%Z
+        with (checkPrefix (xabs_hdr (xh n)) keyS d =? Nat.min maxPrefixLen (xplen (xh n)))%nat
+        by (destruct (Nat.eqb_spec (checkPrefix (xabs_hdr (xh n)) keyS d) (Nat.min maxPrefixLen (xplen (xh n))));
+            destruct (Z.eqb_spec (Z.of_nat (checkPrefix (xabs_hdr (xh n)) keyS d)) (Z.of_N (N.min (N.of_nat maxPrefixLen) (N.of_nat (xplen (xh n)))))); try reflexivity; lia).
+      destruct (checkPrefix (xabs_hdr (xh n)) keyS d =? Nat.min maxPrefixLen (xplen (xh n)))%nat; cbn [negb]; [|repeat split].
+      replace (Z.of_nat d + Z.of_N (N.of_nat (xplen (xh n))))%Z with (Z.of_nat (d + xplen (xh n))) by lia.
+      rewrite idx_bytes_nat.
+      destruct (nth_error keyS (d + xplen (xh n))) as [b|] eqn:Enth.
+      2:{ replace (Z.of_nat (length keyS) <=? Z.of_nat (d + xplen (xh n)))%Z with true
+            by (symmetry; apply Z.leb_le; apply nth_error_None in Enth; lia).
+          repeat split. }
+      replace (Z.of_nat (length keyS) <=? Z.of_nat (d + xplen (xh n)))%Z with false
+        by (symmetry; apply Z.leb_gt; assert (d + xplen (xh n) < length keyS)%nat by (apply nth_error_Some; rewrite Enth; discriminate); lia).
+      pose proof (nth_byte _ _ _ Hbt Enth) as Hb.
+      pose proof (findChild_stored _ _ _ b Hst Hb) as FC. rewrite xfind_xmap.
+      destruct (xfind n b) as [c|] eqn:Ef; cbn [omap].
+      2:{ rewrite FC. cbn [slot_is_nil]. repeat split. }
+      destruct FC as (i & -> & Hnth & Hrep). cbn [slot_is_nil].
+      pose proof (kid_of_find _ _ _ Hx Hb Ef) as Hin. pose proof (Hk _ _ Hin) as Hs.
+      rewrite (slot_read_cell _ _ _ _ _ _ Hst Hnth), (h_tag_stored _ _ Hs).
+      destruct c as [ca gk0 tk0 v0|ca cn]; cbn [strip aref].
+      * cbn [atag gkind_eqb]. destruct (h_cast_leaf_stored _ _ _ _ _ Hs) as (-> & -> & _).
+        destruct (beq gk0 keyS); [|repeat split].
+        assert (Hf : xfind n b <> None) by (rewrite Ef; discriminate).
+        destruct (deleteChild_step _ _ _ _ _ b os _ Hst Hsep Hrd Hout Hb Hf Hzp F4) as (h' & root' & cur' & -> & Es & T1 & T2 & T3 & T4 & T5).
+        cbn [del_ok fst snd]. repeat (split; [reflexivity|]).
+        split; [rewrite snd_xdel_child; apply xdel_pool_zero; exact Hzp|].
+        split; [exact T5|]. exists cur'. auto.
+      * rewrite atag_inner.
+        replace (Z.of_nat (d + xplen (xh n)) + 1)%Z with (Z.of_nat (S (d + xplen (xh n)))) by lia.
+        pose proof (IH h root size os pm (SCell a i) ca cn (S (d + xplen (xh n))) Hs (S1 _ _ Hin)
+                      (slot_read_cell _ root _ _ _ _ Hst Hnth) (S2 _ _ Hin) Hzp Hbt (Fk _ _ Hin)) as R.
+        cbn [strip] in R.
+        apply (del_up size os pm h root ref a n b (AInner ca cn) i _ _ Hst Hsep Hrd Hout Hb Hin Hnth Hrep) in R.
+        exact R.
+Qed.
+
+Lemma unsigned_delete_leaf : forall keyS, del_leaf_spec (fun fuel => g_unsigned_delete_loop1 fuel keyS) keyS.
+Proof.
+  intros keyS f h root size os p a gk0 tk0 v0 d Hs.
+  pose proof (h_tag_stored _ _ Hs) as Ht. cbn [aref atag] in Ht.
+  destruct (h_cast_leaf_stored _ _ _ _ _ Hs) as (Hc & Hg & _).
+  cbn [g_unsigned_delete_loop1 href_is_nil negb]. rewrite Ht. cbn [gkind_eqb]. rewrite Hc, Hg.
+  destruct (beq gk0 keyS); reflexivity.
+Qed.
+
+Lemma signed_delete_loop_sim : forall keyS, del_loop_spec (fun fuel => g_signed_delete_loop1 fuel keyS) keyS keyS.
+Proof.
+  intros keyS. unfold del_loop_spec. induction fuel as [|f IH]; intros h root size os pm ref a n d Hst Hsep Hrd Hout Hzp Hbt Hfit.
+  - reflexivity.
+  - destruct (stored_inv _ _ _ Hst) as (Hl & Hx & Hk). destruct (sep_inv _ _ Hsep) as (S1 & S2 & S3).
+    destruct (afit_inv _ _ Hfit) as (F4 & Fk).
+    pose proof (h_tag_stored _ _ Hst) as Ht. cbn [aref] in Ht.
+    pose proof (xwf_prefix_len n Hx) as Hpl.
+    cbn [g_signed_delete_loop1 href_is_nil negb]. rewrite Ht, atag_inner, (h_ref_node_stored _ _ _ Hst).
+    unfold h_prefixLen. rewrite (h_hdr_stored _ _ _ Hst).
+    cbn [xdelete_in strip]. rewrite xh_xmap. cbn [xabs_hdr prefixLen].
+    destruct (Nat.eqb_spec (xplen (xh n)) 0) as [E0|E0].
+    + replace (N.of_nat (xplen (xh n)) =? 0) with true by lia. cbn [negb andb]. rewrite E0, Nat.add_0_r.
+      rewrite idx_bytes_nat.
+      destruct (nth_error keyS (d)) as [b|] eqn:Enth.
+      2:{ replace (Z.of_nat (length keyS) <=? Z.of_nat (d))%Z with true
+            by (symmetry; apply Z.leb_le; apply nth_error_None in Enth; lia).
+          repeat split. }
+      replace (Z.of_nat (length keyS) <=? Z.of_nat (d))%Z with false
+        by (symmetry; apply Z.leb_gt; assert (d < length keyS)%nat by (apply nth_error_Some; rewrite Enth; discriminate); lia).
+      pose proof (nth_byte _ _ _ Hbt Enth) as Hb.
+      pose proof (findChild_stored _ _ _ b Hst Hb) as FC. rewrite xfind_xmap.
+      destruct (xfind n b) as [c|] eqn:Ef; cbn [omap].
+      2:{ rewrite FC. cbn [slot_is_nil]. repeat split. }
+      destruct FC as (i & -> & Hnth & Hrep). cbn [slot_is_nil].
+      pose proof (kid_of_find _ _ _ Hx Hb Ef) as Hin. pose proof (Hk _ _ Hin) as Hs.
+      rewrite (slot_read_cell _ _ _ _ _ _ Hst Hnth), (h_tag_stored _ _ Hs).
+      destruct c as [ca gk0 tk0 v0|ca cn]; cbn [strip aref].
+      * cbn [atag gkind_eqb]. destruct (h_cast_leaf_stored _ _ _ _ _ Hs) as (-> & -> & _).
+        destruct (beq gk0 keyS); [|repeat split].
+        assert (Hf : xfind n b <> None) by (rewrite Ef; discriminate).
+        destruct (deleteChild_step _ _ _ _ _ b os _ Hst Hsep Hrd Hout Hb Hf Hzp F4) as (h' & root' & cur' & -> & Es & T1 & T2 & T3 & T4 & T5).
+        cbn [del_ok fst snd]. repeat (split; [reflexivity|]).
+        split; [rewrite snd_xdel_child; apply xdel_pool_zero; exact Hzp|].
+        split; [exact T5|]. exists cur'. auto.
+      * rewrite atag_inner.
+        replace (Z.of_nat d + 1)%Z with (Z.of_nat (S (d))) by lia.
+        pose proof (IH h root size os pm (SCell a i) ca cn (S (d)) Hs (S1 _ _ Hin)
+                      (slot_read_cell _ root _ _ _ _ Hst Hnth) (S2 _ _ Hin) Hzp Hbt (Fk _ _ Hin)) as R.
+        cbn [strip] in R.
+        apply (del_up size os pm h root ref a n b (AInner ca cn) i _ _ Hst Hsep Hrd Hout Hb Hin Hnth Hrep) in R.
+        exact R.
+    + replace (N.of_nat (xplen (xh n)) =? 0) with false by lia. cbn [negb andb].
+      rewrite (gen_checkPrefix_eq (xh n) keyS d Hpl). rewrite gm_maxPrefixLen_val.
+      unfold pl_cap. cbn [xabs_hdr prefixLen].
+      replace (Z.of_nat (checkPrefix (xabs_hdr (xh n)) keyS d) =? Z.of_N (N.min (N.of_nat maxPrefixLen) (N.of_nat (xplen (xh n)))))%Z
+        with (checkPrefix (xabs_hdr (xh n)) keyS d =? Nat.min maxPrefixLen (xplen (xh n)))%nat
+        by (destruct (Nat.eqb_spec (checkPrefix (xabs_hdr (xh n)) keyS d) (Nat.min maxPrefixLen (xplen (xh n))));
+            destruct (Z.eqb_spec (Z.of_nat (checkPrefix (xabs_hdr (xh n)) keyS d)) (Z.of_N (N.min (N.of_nat maxPrefixLen) (N.of_nat (xplen (xh n)))))); try reflexivity; lia).
+      destruct (checkPrefix (xabs_hdr (xh n)) keyS d =? Nat.min maxPrefixLen (xplen (xh n)))%nat; cbn [negb]; [|repeat split].
+      replace (Z.of_nat d + Z.of_N (N.of_nat (xplen (xh n))))%Z with (Z.of_nat (d + xplen (xh n))) by lia.
+      rewrite idx_bytes_nat.
+      destruct (nth_error keyS (d + xplen (xh n))) as [b|] eqn:Enth.
+      2:{ replace (Z.of_nat (length keyS) <=? Z.of_nat (d + xplen (xh n)))%Z with true
+            by (symmetry; apply Z.leb_le; apply nth_error_None in Enth; lia).
+          repeat split. }
+      replace (Z.of_nat (length keyS) <=? Z.of_nat (d + xplen (xh n)))%Z with false
+        by (symmetry; apply Z.leb_gt; assert (d + xplen (xh n) < length keyS)%nat by (apply nth_error_Some; rewrite Enth; discriminate); lia).
+      pose proof (nth_byte _ _ _ Hbt Enth) as Hb.
+      pose proof (findChild_stored _ _ _ b Hst Hb) as FC. rewrite xfind_xmap.
+      destruct (xfind n b) as [c|] eqn:Ef; cbn [omap].
+      2:{ rewrite FC. cbn [slot_is_nil]. repeat split. }
+      destruct FC as (i & -> & Hnth & Hrep). cbn [slot_is_nil].
+      pose proof (kid_of_find _ _ _ Hx Hb Ef) as Hin. pose proof (Hk _ _ Hin) as Hs.
+      rewrite (slot_read_cell _ _ _ _ _ _ Hst Hnth), (h_tag_stored _ _ Hs).
+      destruct c as [ca gk0 tk0 v0|ca cn]; cbn [strip aref].
+      * cbn [atag gkind_eqb]. destruct (h_cast_leaf_stored _ _ _ _ _ Hs) as (-> & -> & _).
+        destruct (beq gk0 keyS); [|repeat split].
+        assert (Hf : xfind n b <> None) by (rewrite Ef; discriminate).
+        destruct (deleteChild_step _ _ _ _ _ b os _ Hst Hsep Hrd Hout Hb Hf Hzp F4) as (h' & root' & cur' & -> & Es & T1 & T2 & T3 & T4 & T5).
+        cbn [del_ok fst snd]. repeat (split; [reflexivity|]).
+        split; [rewrite snd_xdel_child; apply xdel_pool_zero; exact Hzp|].
+        split; [exact T5|]. exists cur'. auto.
+      * rewrite atag_inner.
+        replace (Z.of_nat (d + xplen (xh n)) + 1)%Z with (Z.of_nat (S (d + xplen (xh n)))) by lia.
+        pose proof (IH h root size os pm (SCell a i) ca cn (S (d + xplen (xh n))) Hs (S1 _ _ Hin)
+                      (slot_read_cell _ root _ _ _ _ Hst Hnth) (S2 _ _ Hin) Hzp Hbt (Fk _ _ Hin)) as R.
+        cbn [strip] in R.
+        apply (del_up size os pm h root ref a n b (AInner ca cn) i _ _ Hst Hsep Hrd Hout Hb Hin Hnth Hrep) in R.
+        exact R.
+Qed.
+
+Lemma signed_delete_leaf : forall keyS, del_leaf_spec (fun fuel => g_signed_delete_loop1 fuel keyS) keyS.
+Proof.
+  intros keyS f h root size os p a gk0 tk0 v0 d Hs.
+  pose proof (h_tag_stored _ _ Hs) as Ht. cbn [aref atag] in Ht.
+  destruct (h_cast_leaf_stored _ _ _ _ _ Hs) as (Hc & Hg & _).
+  cbn [g_signed_delete_loop1 href_is_nil negb]. rewrite Ht. cbn [gkind_eqb]. rewrite Hc, Hg.
+  destruct (beq gk0 keyS); reflexivity.
+Qed.
+
+Lemma float_delete_loop_sim : forall keyS, del_loop_spec (fun fuel => g_float_delete_loop1 fuel keyS) keyS keyS.
+Proof.
+  intros keyS. unfold del_loop_spec. induction fuel as [|f IH]; intros h root size os pm ref a n d Hst Hsep Hrd Hout Hzp Hbt Hfit.
+  - reflexivity.
+  - destruct (stored_inv _ _ _ Hst) as (Hl & Hx & Hk). destruct (sep_inv _ _ Hsep) as (S1 & S2 & S3).
+    destruct (afit_inv _ _ Hfit) as (F4 & Fk).
+    pose proof (h_tag_stored _ _ Hst) as Ht. cbn [aref] in Ht.
+    pose proof (xwf_prefix_len n Hx) as Hpl.
+    cbn [g_float_delete_loop1 href_is_nil negb]. rewrite Ht, atag_inner, (h_ref_node_stored _ _ _ Hst).
+    unfold h_prefixLen. rewrite (h_hdr_stored _ _ _ Hst).
+    cbn [xdelete_in strip]. rewrite xh_xmap. cbn [xabs_hdr prefixLen].
+    destruct (Nat.eqb_spec (xplen (xh n)) 0) as [E0|E0].
+    + replace (N.of_nat (xplen (xh n)) =? 0) with true by lia. cbn [negb andb]. rewrite E0, Nat.add_0_r.
+      rewrite idx_bytes_nat.
+      destruct (nth_error keyS (d)) as [b|] eqn:Enth.
+      2:{ replace (Z.of_nat (length keyS) <=? Z.of_nat (d))%Z with true
+            by (symmetry; apply Z.leb_le; apply nth_error_None in Enth; lia).
+          repeat split. }
+      replace (Z.of_nat (length keyS) <=? Z.of_nat (d))%Z with false
+        by (symmetry; apply Z.leb_gt; assert (d < length keyS)%nat by (apply nth_error_Some; rewrite Enth; discriminate); lia).
+      pose proof (nth_byte _ _ _ Hbt Enth) as Hb.
+      pose proof (findChild_stored _ _ _ b Hst Hb) as FC. rewrite xfind_xmap.
+      destruct (xfind n b) as [c|] eqn:Ef; cbn [omap].
+      2:{ rewrite FC. cbn [slot_is_nil]. repeat split. }
+      destruct FC as (i & -> & Hnth & Hrep). cbn [slot_is_nil].
+      pose proof (kid_of_find _ _ _ Hx Hb Ef) as Hin. pose proof (Hk _ _ Hin) as Hs.
+      rewrite (slot_read_cell _ _ _ _ _ _ Hst Hnth), (h_tag_stored _ _ Hs).
+      destruct c as [ca gk0 tk0 v0|ca cn]; cbn [strip aref].
+      * cbn [atag gkind_eqb]. destruct (h_cast_leaf_stored _ _ _ _ _ Hs) as (-> & -> & _).
+        destruct (beq gk0 keyS); [|repeat split].
+        assert (Hf : xfind n b <> None) by (rewrite Ef; discriminate).
+        destruct (deleteChild_step _ _ _ _ _ b os _ Hst Hsep Hrd Hout Hb Hf Hzp F4) as (h' & root' & cur' & -> & Es & T1 & T2 & T3 & T4 & T5).
+        cbn [del_ok fst snd]. repeat (split; [reflexivity|]).
+        split; [rewrite snd_xdel_child; apply xdel_pool_zero; exact Hzp|].
+        split; [exact T5|]. exists cur'. auto.
+      * rewrite atag_inner.
+        replace (Z.of_nat d + 1)%Z with (Z.of_nat (S (d))) by lia.
+        pose proof (IH h root size os pm (SCell a i) ca cn (S (d)) Hs (S1 _ _ Hin)
+                      (slot_read_cell _ root _ _ _ _ Hst Hnth) (S2 _ _ Hin) Hzp Hbt (Fk _ _ Hin)) as R.
+        cbn [strip] in R.
+        apply (del_up size os pm h root ref a n b (AInner ca cn) i _ _ Hst Hsep Hrd Hout Hb Hin Hnth Hrep) in R.
+        exact R.
+    + replace (N.of_nat (xplen (xh n)) =? 0) with false by lia. cbn [negb andb].
+      rewrite (gen_checkPrefix_eq (xh n) keyS d Hpl). rewrite gm_maxPrefixLen_val.
+      unfold pl_cap. cbn [xabs_hdr prefixLen].
+      replace (Z.of_nat (checkPrefix (xabs_hdr (xh n)) keyS d) =? Z.of_N (N.min (N.of_nat maxPrefixLen) (N.of_nat (xplen (xh n)))))%Z
+        with (checkPrefix (xabs_hdr (xh n)) keyS d =? Nat.min maxPrefixLen (xplen (xh n)))%nat
+        by (destruct (Nat.eqb_spec (checkPrefix (xabs_hdr (xh n)) keyS d) (Nat.min maxPrefixLen (xplen (xh n))));
+            destruct (Z.eqb_spec (Z.of_nat (checkPrefix (xabs_hdr (xh n)) keyS d)) (Z.of_N (N.min (N.of_nat maxPrefixLen) (N.of_nat (xplen (xh n)))))); try reflexivity; lia).
+      destruct (checkPrefix (xabs_hdr (xh n)) keyS d =? Nat.min maxPrefixLen (xplen (xh n)))%nat; cbn [negb]; [|repeat split].
+      replace (Z.of_nat d + Z.of_N (N.of_nat (xplen (xh n))))%Z with (Z.of_nat (d + xplen (xh n))) by lia.
+      rewrite idx_bytes_nat.
+      destruct (nth_error keyS (d + xplen (xh n))) as [b|] eqn:Enth.
+      2:{ replace (Z.of_nat (length keyS) <=? Z.of_nat (d + xplen (xh n)))%Z with true
+            by (symmetry; apply Z.leb_le; apply nth_error_None in Enth; lia).
+          repeat split. }
+      replace (Z.of_nat (length keyS) <=? Z.of_nat (d + xplen (xh n)))%Z with false
+        by (symmetry; apply Z.leb_gt; assert (d + xplen (xh n) < length keyS)%nat by (apply nth_error_Some; rewrite Enth; discriminate); lia).
+      pose proof (nth_byte _ _ _ Hbt Enth) as Hb.
+      pose proof (findChild_stored _ _ _ b Hst Hb) as FC. rewrite xfind_xmap.
+      destruct (xfind n b) as [c|] eqn:Ef; cbn [omap].
+      2:{ rewrite FC. cbn [slot_is_nil]. repeat split. }
+      destruct FC as (i & -> & Hnth & Hrep). cbn [slot_is_nil].
+      pose proof (kid_of_find _ _ _ Hx Hb Ef) as Hin. pose proof (Hk _ _ Hin) as Hs.
+      rewrite (slot_read_cell _ _ _ _ _ _ Hst Hnth), (h_tag_stored _ _ Hs).
+      destruct c as [ca gk0 tk0 v0|ca cn]; cbn [strip aref].
+      * cbn [atag gkind_eqb]. destruct (h_cast_leaf_stored _ _ _ _ _ Hs) as (-> & -> & _).
+        destruct (beq gk0 keyS); [|repeat split].
+        assert (Hf : xfind n b <> None) by (rewrite Ef; discriminate).
+        destruct (deleteChild_step _ _ _ _ _ b os _ Hst Hsep Hrd Hout Hb Hf Hzp F4) as (h' & root' & cur' & -> & Es & T1 & T2 & T3 & T4 & T5).
+        cbn [del_ok fst snd]. repeat (split; [reflexivity|]).
+        split; [rewrite snd_xdel_child; apply xdel_pool_zero; exact Hzp|].
+        split; [exact T5|]. exists cur'. auto.
+      * rewrite atag_inner.
+        replace (Z.of_nat (d + xplen (xh n)) + 1)%Z with (Z.of_nat (S (d + xplen (xh n)))) by lia.
+        pose proof (IH h root size os pm (SCell a i) ca cn (S (d + xplen (xh n))) Hs (S1 _ _ Hin)
+                      (slot_read_cell _ root _ _ _ _ Hst Hnth) (S2 _ _ Hin) Hzp Hbt (Fk _ _ Hin)) as R.
+        cbn [strip] in R.
+        apply (del_up size os pm h root ref a n b (AInner ca cn) i _ _ Hst Hsep Hrd Hout Hb Hin Hnth Hrep) in R.
+        exact R.
+Qed.
+
+Lemma float_delete_leaf : forall keyS, del_leaf_spec (fun fuel => g_float_delete_loop1 fuel keyS) keyS.
+Proof.
+  intros keyS f h root size os p a gk0 tk0 v0 d Hs.
+  pose proof (h_tag_stored _ _ Hs) as Ht. cbn [aref atag] in Ht.
+  destruct (h_cast_leaf_stored _ _ _ _ _ Hs) as (Hc & Hg & _).
+  cbn [g_float_delete_loop1 href_is_nil negb]. rewrite Ht. cbn [gkind_eqb]. rewrite Hc, Hg.
+  destruct (beq gk0 keyS); reflexivity.
+Qed.
+
+Lemma compound_delete_loop_sim : forall keyS, del_loop_spec (fun fuel => g_compound_delete_loop1 fuel keyS) keyS keyS.
+Proof.
+  intros keyS. unfold del_loop_spec. induction fuel as [|f IH]; intros h root size os pm ref a n d Hst Hsep Hrd Hout Hzp Hbt Hfit.
+  - reflexivity.
+  - destruct (stored_inv _ _ _ Hst) as (Hl & Hx & Hk). destruct (sep_inv _ _ Hsep) as (S1 & S2 & S3).
+    destruct (afit_inv _ _ Hfit) as (F4 & Fk).
+    pose proof (h_tag_stored _ _ Hst) as Ht. cbn [aref] in Ht.
+    pose proof (xwf_prefix_len n Hx) as Hpl.
+    cbn [g_compound_delete_loop1 href_is_nil negb]. rewrite Ht, atag_inner, (h_ref_node_stored _ _ _ Hst).
+    unfold h_prefixLen. rewrite (h_hdr_stored _ _ _ Hst).
+    cbn [xdelete_in strip]. rewrite xh_xmap. cbn [xabs_hdr prefixLen].
+    destruct (Nat.eqb_spec (xplen (xh n)) 0) as [E0|E0].
+    + replace (N.of_nat (xplen (xh n)) =? 0) with true by lia. cbn [negb andb]. rewrite E0, Nat.add_0_r.
+      rewrite idx_bytes_nat.
+      destruct (nth_error keyS (d)) as [b|] eqn:Enth.
+      2:{ replace (Z.of_nat (length keyS) <=? Z.of_nat (d))%Z with true
+            by (symmetry; apply Z.leb_le; apply nth_error_None in Enth; lia).
+          repeat split. }
+      replace (Z.of_nat (length keyS) <=? Z.of_nat (d))%Z with false
+        by (symmetry; apply Z.leb_gt; assert (d < length keyS)%nat by (apply nth_error_Some; rewrite Enth; discriminate); lia).
+      pose proof (nth_byte _ _ _ Hbt Enth) as Hb.
+      pose proof (findChild_stored _ _ _ b Hst Hb) as FC. rewrite xfind_xmap.
+      destruct (xfind n b) as [c|] eqn:Ef; cbn [omap].
+      2:{ rewrite FC. cbn [slot_is_nil]. repeat split. }
+      destruct FC as (i & -> & Hnth & Hrep). cbn [slot_is_nil].
+      pose proof (kid_of_find _ _ _ Hx Hb Ef) as Hin. pose proof (Hk _ _ Hin) as Hs.
+      rewrite (slot_read_cell _ _ _ _ _ _ Hst Hnth), (h_tag_stored _ _ Hs).
+      destruct c as [ca gk0 tk0 v0|ca cn]; cbn [strip aref].
+      * cbn [atag gkind_eqb]. destruct (h_cast_leaf_stored _ _ _ _ _ Hs) as (-> & -> & _).
+        destruct (beq gk0 keyS); [|repeat split].
+        assert (Hf : xfind n b <> None) by (rewrite Ef; discriminate).
+        destruct (deleteChild_step _ _ _ _ _ b os _ Hst Hsep Hrd Hout Hb Hf Hzp F4) as (h' & root' & cur' & -> & Es & T1 & T2 & T3 & T4 & T5).
+        cbn [del_ok fst snd]. repeat (split; [reflexivity|]).
+        split; [rewrite snd_xdel_child; apply xdel_pool_zero; exact Hzp|].
+        split; [exact T5|]. exists cur'. auto.
+      * rewrite atag_inner.
+        replace (Z.of_nat d + 1)%Z with (Z.of_nat (S (d))) by lia.
+        pose proof (IH h root size os pm (SCell a i) ca cn (S (d)) Hs (S1 _ _ Hin)
+                      (slot_read_cell _ root _ _ _ _ Hst Hnth) (S2 _ _ Hin) Hzp Hbt (Fk _ _ Hin)) as R.
+        cbn [strip] in R.
+        apply (del_up size os pm h root ref a n b (AInner ca cn) i _ _ Hst Hsep Hrd Hout Hb Hin Hnth Hrep) in R.
+        exact R.
+    + replace (N.of_nat (xplen (xh n)) =? 0) with false by lia. cbn [negb andb].
+      rewrite (gen_checkPrefix_eq (xh n) keyS d Hpl). rewrite gm_maxPrefixLen_val.
+      unfold pl_cap. cbn [xabs_hdr prefixLen].
+      replace (Z.of_nat (checkPrefix (xabs_hdr (xh n)) keyS d) =? Z.of_N (N.min (N.of_nat maxPrefixLen) (N.of_nat (xplen (xh n)))))%Z
+        with (checkPrefix (xabs_hdr (xh n)) keyS d =? Nat.min maxPrefixLen (xplen (xh n)))%nat
+        by (destruct (Nat.eqb_spec (checkPrefix (xabs_hdr (xh n)) keyS d) (Nat.min maxPrefixLen (xplen (xh n))));
+            destruct (Z.eqb_spec (Z.of_nat (checkPrefix (xabs_hdr (xh n)) keyS d)) (Z.of_N (N.min (N.of_nat maxPrefixLen) (N.of_nat (xplen (xh n)))))); try reflexivity; lia).
+      destruct (checkPrefix (xabs_hdr (xh n)) keyS d =? Nat.min maxPrefixLen (xplen (xh n)))%nat; cbn [negb]; [|repeat split].
+      replace (Z.of_nat d + Z.of_N (N.of_nat (xplen (xh n))))%Z with (Z.of_nat (d + xplen (xh n))) by lia.
+      rewrite idx_bytes_nat.
+      destruct (nth_error keyS (d + xplen (xh n))) as [b|] eqn:Enth.
+      2:{ replace (Z.of_nat (length keyS) <=? Z.of_nat (d + xplen (xh n)))%Z with true
+            by (symmetry; apply Z.leb_le; apply nth_error_None in Enth; lia).
+          repeat split. }
+      replace (Z.of_nat (length keyS) <=? Z.of_nat (d + xplen (xh n)))%Z with false
+        by (symmetry; apply Z.leb_gt; assert (d + xplen (xh n) < length keyS)%nat by (apply nth_error_Some; rewrite Enth; discriminate); lia).
+      pose proof (nth_byte _ _ _ Hbt Enth) as Hb.
+      pose proof (findChild_stored _ _ _ b Hst Hb) as FC. rewrite xfind_xmap.
+      destruct (xfind n b) as [c|] eqn:Ef; cbn [omap].
+      2:{ rewrite FC. cbn [slot_is_nil]. repeat split. }
+      destruct FC as (i & -> & Hnth & Hrep). cbn [slot_is_nil].
+      pose proof (kid_of_find _ _ _ Hx Hb Ef) as Hin. pose proof (Hk _ _ Hin) as Hs.
+      rewrite (slot_read_cell _ _ _ _ _ _ Hst Hnth), (h_tag_stored _ _ Hs).
+      destruct c as [ca gk0 tk0 v0|ca cn]; cbn [strip aref].
+      * cbn [atag gkind_eqb]. destruct (h_cast_leaf_stored _ _ _ _ _ Hs) as (-> & -> & _).
+        destruct (beq gk0 keyS); [|repeat split].
+        assert (Hf : xfind n b <> None) by (rewrite Ef; discriminate).
+        destruct (deleteChild_step _ _ _ _ _ b os _ Hst Hsep Hrd Hout Hb Hf Hzp F4) as (h' & root' & cur' & -> & Es & T1 & T2 & T3 & T4 & T5).
+        cbn [del_ok fst snd]. repeat (split; [reflexivity|]).
+        split; [rewrite snd_xdel_child; apply xdel_pool_zero; exact Hzp|].
+        split; [exact T5|]. exists cur'. auto.
+      * rewrite atag_inner.
+        replace (Z.of_nat (d + xplen (xh n)) + 1)%Z with (Z.of_nat (S (d + xplen (xh n)))) by lia.
+        pose proof (IH h root size os pm (SCell a i) ca cn (S (d + xplen (xh n))) Hs (S1 _ _ Hin)
+                      (slot_read_cell _ root _ _ _ _ Hst Hnth) (S2 _ _ Hin) Hzp Hbt (Fk _ _ Hin)) as R.
+        cbn [strip] in R.
+        apply (del_up size os pm h root ref a n b (AInner ca cn) i _ _ Hst Hsep Hrd Hout Hb Hin Hnth Hrep) in R.
+        exact R.
+Qed.
+
+Lemma compound_delete_leaf : forall keyS, del_leaf_spec (fun fuel => g_compound_delete_loop1 fuel keyS) keyS.
+Proof.
+  intros keyS f h root size os p a gk0 tk0 v0 d Hs.
+  pose proof (h_tag_stored _ _ Hs) as Ht. cbn [aref atag] in Ht.
+  destruct (h_cast_leaf_stored _ _ _ _ _ Hs) as (Hc & Hg & _).
+  cbn [g_compound_delete_loop1 href_is_nil negb]. rewrite Ht. cbn [gkind_eqb]. rewrite Hc, Hg.
+  destruct (beq gk0 keyS); reflexivity.
+Qed.
+
+Lemma collation_delete_loop_sim : forall keyS colKey, del_loop_spec (fun fuel => g_collation_delete_loop1 fuel keyS colKey) keyS colKey.
+Proof.
+  intros keyS colKey. unfold del_loop_spec. induction fuel as [|f IH]; intros h root size os pm ref a n d Hst Hsep Hrd Hout Hzp Hbt Hfit.
+  - reflexivity.
+  - destruct (stored_inv _ _ _ Hst) as (Hl & Hx & Hk). destruct (sep_inv _ _ Hsep) as (S1 & S2 & S3).
+    destruct (afit_inv _ _ Hfit) as (F4 & Fk).
+    pose proof (h_tag_stored _ _ Hst) as Ht. cbn [aref] in Ht.
+    pose proof (xwf_prefix_len n Hx) as Hpl.
+    cbn [g_collation_delete_loop1 href_is_nil negb]. rewrite Ht, atag_inner, (h_ref_node_stored _ _ _ Hst).
+    unfold h_prefixLen. rewrite (h_hdr_stored _ _ _ Hst).
+    cbn [xdelete_in strip]. rewrite xh_xmap. cbn [xabs_hdr prefixLen].
+    destruct (Nat.eqb_spec (xplen (xh n)) 0) as [E0|E0].
+    + replace (N.of_nat (xplen (xh n)) =? 0) with true by lia. cbn [negb andb]. rewrite E0, Nat.add_0_r.
+      rewrite idx_bytes_nat.
+      destruct (nth_error colKey (d)) as [b|] eqn:Enth.
+      2:{ replace (Z.of_nat (length colKey) <=? Z.of_nat (d))%Z with true
+            by (symmetry; apply Z.leb_le; apply nth_error_None in Enth; lia).
+          repeat split. }
+      replace (Z.of_nat (length colKey) <=? Z.of_nat (d))%Z with false
+        by (symmetry; apply Z.leb_gt; assert (d < length colKey)%nat by (apply nth_error_Some; rewrite Enth; discriminate); lia).
+      pose proof (nth_byte _ _ _ Hbt Enth) as Hb.
+      pose proof (findChild_stored _ _ _ b Hst Hb) as FC. rewrite xfind_xmap.
+      destruct (xfind n b) as [c|] eqn:Ef; cbn [omap].
+      2:{ rewrite FC. cbn [slot_is_nil]. repeat split. }
+      destruct FC as (i & -> & Hnth & Hrep). cbn [slot_is_nil].
+      pose proof (kid_of_find _ _ _ Hx Hb Ef) as Hin. pose proof (Hk _ _ Hin) as Hs.
+      rewrite (slot_read_cell _ _ _ _ _ _ Hst Hnth), (h_tag_stored _ _ Hs).
+      destruct c as [ca gk0 tk0 v0|ca cn]; cbn [strip aref].
+      * cbn [atag gkind_eqb]. destruct (h_cast_leaf_stored _ _ _ _ _ Hs) as (-> & -> & _).
+        destruct (beq gk0 keyS); [|repeat split].
+        assert (Hf : xfind n b <> None) by (rewrite Ef; discriminate).
+        destruct (deleteChild_step _ _ _ _ _ b os _ Hst Hsep Hrd Hout Hb Hf Hzp F4) as (h' & root' & cur' & -> & Es & T1 & T2 & T3 & T4 & T5).
+        cbn [del_ok fst snd]. repeat (split; [reflexivity|]).
+        split; [rewrite snd_xdel_child; apply xdel_pool_zero; exact Hzp|].
+        split; [exact T5|]. exists cur'. auto.
+      * rewrite atag_inner.
+        replace (Z.of_nat d + 1)%Z with (Z.of_nat (S (d))) by lia.
+        pose proof (IH h root size os pm (SCell a i) ca cn (S (d)) Hs (S1 _ _ Hin)
+                      (slot_read_cell _ root _ _ _ _ Hst Hnth) (S2 _ _ Hin) Hzp Hbt (Fk _ _ Hin)) as R.
+        cbn [strip] in R.
+        apply (del_up size os pm h root ref a n b (AInner ca cn) i _ _ Hst Hsep Hrd Hout Hb Hin Hnth Hrep) in R.
+        exact R.
+    + replace (N.of_nat (xplen (xh n)) =? 0) with false by lia. cbn [negb andb].
+      rewrite (gen_checkPrefix_eq (xh n) colKey d Hpl). rewrite gm_maxPrefixLen_val.
+      unfold pl_cap. cbn [xabs_hdr prefixLen].
+      replace (Z.of_nat (checkPrefix (xabs_hdr (xh n)) colKey d) =? Z.of_N (N.min (N.of_nat maxPrefixLen) (N.of_nat (xplen (xh n)))))%Z
+        with (checkPrefix (xabs_hdr (xh n)) colKey d =? Nat.min maxPrefixLen (xplen (xh n)))%nat
+        by (destruct (Nat.eqb_spec (checkPrefix (xabs_hdr (xh n)) colKey d) (Nat.min maxPrefixLen (xplen (xh n))));
+            destruct (Z.eqb_spec (Z.of_nat (checkPrefix (xabs_hdr (xh n)) colKey d)) (Z.of_N (N.min (N.of_nat maxPrefixLen) (N.of_nat (xplen (xh n)))))); try reflexivity; lia).
+      destruct (checkPrefix (xabs_hdr (xh n)) colKey d =? Nat.min maxPrefixLen (xplen (xh n)))%nat; cbn [negb]; [|repeat split].
+      replace (Z.of_nat d + Z.of_N (N.of_nat (xplen (xh n))))%Z with (Z.of_nat (d + xplen (xh n))) by lia.
+      rewrite idx_bytes_nat.
+      destruct (nth_error colKey (d + xplen (xh n))) as [b|] eqn:Enth.
+      2:{ replace (Z.of_nat (length colKey) <=? Z.of_nat (d + xplen (xh n)))%Z with true
+            by (symmetry; apply Z.leb_le; apply nth_error_None in Enth; lia).
+          repeat split. }
+      replace (Z.of_nat (length colKey) <=? Z.of_nat (d + xplen (xh n)))%Z with false
+        by (symmetry; apply Z.leb_gt; assert (d + xplen (xh n) < length colKey)%nat by (apply nth_error_Some; rewrite Enth; discriminate); lia).
+      pose proof (nth_byte _ _ _ Hbt Enth) as Hb.
+      pose proof (findChild_stored _ _ _ b Hst Hb) as FC. rewrite xfind_xmap.
+      destruct (xfind n b) as [c|] eqn:Ef; cbn [omap].
+      2:{ rewrite FC. cbn [slot_is_nil]. repeat split. }
+      destruct FC as (i & -> & Hnth & Hrep). cbn [slot_is_nil].
+      pose proof (kid_of_find _ _ _ Hx Hb Ef) as Hin. pose proof (Hk _ _ Hin) as Hs.
+      rewrite (slot_read_cell _ _ _ _ _ _ Hst Hnth), (h_tag_stored _ _ Hs).
+      destruct c as [ca gk0 tk0 v0|ca cn]; cbn [strip aref].
+      * cbn [atag gkind_eqb]. destruct (h_cast_leaf_stored _ _ _ _ _ Hs) as (-> & -> & _).
+        destruct (beq gk0 keyS); [|repeat split].
+        assert (Hf : xfind n b <> None) by (rewrite Ef; discriminate).
+        destruct (deleteChild_step _ _ _ _ _ b os _ Hst Hsep Hrd Hout Hb Hf Hzp F4) as (h' & root' & cur' & -> & Es & T1 & T2 & T3 & T4 & T5).
+        cbn [del_ok fst snd]. repeat (split; [reflexivity|]).
+        split; [rewrite snd_xdel_child; apply xdel_pool_zero; exact Hzp|].
+        split; [exact T5|]. exists cur'. auto.
+      * rewrite atag_inner.
+        replace (Z.of_nat (d + xplen (xh n)) + 1)%Z with (Z.of_nat (S (d + xplen (xh n)))) by lia.
+        pose proof (IH h root size os pm (SCell a i) ca cn (S (d + xplen (xh n))) Hs (S1 _ _ Hin)
+                      (slot_read_cell _ root _ _ _ _ Hst Hnth) (S2 _ _ Hin) Hzp Hbt (Fk _ _ Hin)) as R.
+        cbn [strip] in R.
+        apply (del_up size os pm h root ref a n b (AInner ca cn) i _ _ Hst Hsep Hrd Hout Hb Hin Hnth Hrep) in R.
+        exact R.
+Qed.
+
+Lemma collation_delete_leaf : forall keyS colKey, del_leaf_spec (fun fuel => g_collation_delete_loop1 fuel keyS colKey) keyS.
+Proof.
+  intros keyS colKey f h root size os p a gk0 tk0 v0 d Hs.
+  pose proof (h_tag_stored _ _ Hs) as Ht. cbn [aref atag] in Ht.
+  destruct (h_cast_leaf_stored _ _ _ _ _ Hs) as (Hc & Hg & _).
+  cbn [g_collation_delete_loop1 href_is_nil negb]. rewrite Ht. cbn [gkind_eqb]. rewrite Hc, Hg.
+  destruct (beq gk0 keyS); reflexivity.
+Qed.
+
+(* ================= C. the representation of a whole tree, and Delete ================= *)
+(* repr h r t F: the raw tree t of the model is held by the heap h below the reference r, on the footprint F
+   (the addresses of its nodes and leaves reachable through occupied cells; every node on it is xwf, the
+   footprints of different children are disjoint) *)
+Definition repr (h : heap) (r : addr) (t : xtree) (F : addr -> Prop) : Prop :=
+  exists at_, aref at_ = r /\ strip at_ = t /\ stored h at_ /\ sep at_ /\ (forall x, F x <-> live at_ x).
+Definition repr_root (h : heap) (root : href) (ot : option xtree) (F : addr -> Prop) : Prop :=
+  match root, ot with
+  | None, None => forall x, ~ F x
+  | Some r, Some t => repr h r t F
+  | _, _ => False
+  end /\ (forall x, F x -> (x < next h)%nat).
+
+(* the uint32 field prefixLen: a node4 and each of its inner children have a merged path that fits *)
+Definition xfit4 (n : xnode xtree) : Prop :=
+  match n with
+  | X4 h _ _ => forall b cn, In (b, XInner cn) (nenum (xabs n)) -> N.of_nat (xplen (xh cn)) + N.of_nat (xplen h) + 1 < M32
+  | _ => True
+  end.
+Inductive xfit : xtree -> Prop :=
+| xfit_leaf : forall gk tk v, xfit (XLeaf gk tk v)
+| xfit_inner : forall n, xfit4 n -> (forall b c, In (b, c) (nenum (xabs n)) -> xfit c) -> xfit (XInner n).
+
+Lemma afit_of_xfit : forall h t, stored h t -> xfit (strip t) -> afit t.
+Proof.
+  intros h t H. induction H as [a gk tk v Hl|a n Hl Hx Hk IH]; intros Hf; [constructor|].
+  cbn [strip] in Hf. inversion Hf as [|n0 H4 Hkf E]; subst n0. constructor.
+  - destruct n as [hd keys ch|hd keys ch|hd keys ch|hd ch]; cbn [afit4]; try exact I.
+    intros b' ca cn Hin. change (X4 hd keys (map (omap strip) ch)) with (xmap strip (X4 hd keys ch)) in H4.
+    cbn [xfit4 xmap] in H4. specialize (H4 b' (xmap strip cn)). rewrite xh_xmap in H4. apply H4.
+    change (X4 hd keys (map (omap strip) ch)) with (xmap strip (X4 hd keys ch)).
+    rewrite nenum_xabs_xmap. apply in_map_iff. exists (b', AInner ca cn). split; [reflexivity|exact Hin].
+  - intros b c Hin. apply (IH b c Hin). apply (Hkf b). rewrite nenum_xabs_xmap. apply in_map_iff.
+    exists (b, c). split; [reflexivity|exact Hin].
+Qed.
+
+(* a Delete method: the nil test, the key preparation, then the loop from &t.root *)
+Definition delete_top (L : nat -> heap -> href -> Z -> list choice -> hpool -> slot -> href -> Z -> mres bool)
+    (fuel : nat) (h : heap) (root : href) (size : Z) (os : list choice) (p : hpool) : mres bool :=
+  if href_is_nil root then MDone h root size os p false
+  else match slot_read h root SRoot with None => MPanic | Some v => L fuel h root size os p SRoot v 0%Z end.
+
+Theorem delete_top_sim : forall L gk tk, del_loop_spec L gk tk -> del_leaf_spec L gk ->
+  forall h root ot F size os pm,
+  repr_root h root ot F -> zero_pool pm -> isbytes tk = true -> match ot with Some t => xfit t | None => True end ->
+  let m := xdo_delete (mkXstate ot size) gk tk os pm in
+  match delete_top L (key_fuel tk) h root size os (map_pool pm) with
+  | MDone h' root' size' os' p' ret =>
+      snd (fst m) = OBool ret /\ size' = xsize (fst (fst m)) /\ p' = map_pool (snd m) /\ zero_pool (snd m) /\
+      next h' = next h /\
+      exists F', repr_root h' root' (xroot (fst (fst m))) F' /\ (forall x, F' x -> F x) /\
+                 (forall x, ~ F x -> load h' x = load h x)
+  | MPanic => False
+  | MFuel => snd (fst m) = OFuel
+  end.
+Proof.
+  intros L gk tk HL HLf h root ot F size os pm (Hr & Hbd) Hzp Hbt Hfit m. subst m. unfold delete_top, xdo_delete.
+  destruct root as [r|]; destruct ot as [t|]; cbn [repr_root] in Hr; try contradiction; cbn [href_is_nil xroot slot_read].
+  2:{ cbn [fst snd xsize xroot]. repeat (split; [reflexivity|]). split; [exact Hzp|]. split; [reflexivity|].
+      exists F. split; [split; [exact Hr|exact Hbd]|]. auto. }
+  destruct Hr as (at_ & <- & <- & Hst & Hsep & HF).
+  destruct at_ as [a gk0 tk0 v0|a n]; cbn [strip aref].
+  - unfold key_fuel. rewrite (HLf _ h (Some a) size os (map_pool pm) a gk0 tk0 v0 0%Z Hst).
+    destruct (beq gk0 gk); cbn [fst snd xsize xroot].
+    + repeat (split; [reflexivity|]). split; [exact Hzp|]. split; [reflexivity|].
+      exists (fun _ => False). split; [split; [intros x Hx; exact Hx|intros x []]|]. split; [intros x []|reflexivity].
+    + repeat (split; [reflexivity|]). split; [exact Hzp|]. split; [reflexivity|].
+      exists F. split; [|auto]. split; [|exact Hbd]. exists (ALeaf a gk0 tk0 v0). auto.
+  - pose proof (HL (key_fuel tk) h (Some a) size os pm SRoot a n 0%nat Hst Hsep eq_refl I Hzp Hbt
+                   (afit_of_xfit _ _ Hst Hfit)) as R.
+    cbn [strip Z.of_nat] in R. unfold del_ok in R.
+    destruct (L (key_fuel tk) h (Some a) size os (map_pool pm) SRoot (Some a) 0%Z) as [h' root' size' os' p' ret| |];
+      destruct (xdelete_in (key_fuel tk) (XInner (xmap strip n)) gk tk 0 os pm) as [[res osm] pmm];
+      cbn [fst snd] in R |- *; destruct res as [t'| |]; cbn [fst snd xsize xroot]; try contradiction; try discriminate R.
+    + destruct R as (-> & -> & -> & -> & Hzp' & Hnx & cur' & <- & Hst' & Hsep' & Hsub & Hfr).
+      repeat (split; [reflexivity|]). split; [exact Hzp'|]. split; [exact Hnx|].
+      destruct Hfr as (_ & -> & Hframe).
+      exists (live cur'). split; [split|split].
+      * exists cur'. split; [reflexivity|]. split; [reflexivity|]. split; [exact Hst'|]. split; [exact Hsep'|]. intros x; reflexivity.
+      * intros x Hx. rewrite Hnx. apply Hbd. apply HF. apply Hsub. exact Hx.
+      * intros x Hx. apply HF. apply Hsub. exact Hx.
+      * intros x Hx. apply Hframe; [lia|]. intros Hl. apply Hx. apply HF. exact Hl.
+    + destruct R as (-> & -> & -> & -> & -> & -> & ->).
+      repeat (split; [reflexivity|]). split; [exact Hzp|]. split; [reflexivity|].
+      exists F. split; [|auto]. split; [|exact Hbd]. exists (AInner a n). auto.
+    + reflexivity.
+Qed.
+
+Theorem gen_alpha_delete_sim : forall h root ot F size keyS os pm,
+  repr_root h root ot F -> zero_pool pm -> isbytes (keyS ++ [0]) = true -> match ot with Some t => xfit t | None => True end ->
+  let m := xdo_delete (mkXstate ot size) (keyS ++ [0]) (keyS ++ [0]) os pm in
+  match g_alpha_delete (key_fuel (keyS ++ [0])) h root size keyS os (map_pool pm) with
+  | MDone h' root' size' os' p' ret =>
+      snd (fst m) = OBool ret /\ size' = xsize (fst (fst m)) /\ p' = map_pool (snd m) /\ zero_pool (snd m) /\
+      next h' = next h /\
+      exists F', repr_root h' root' (xroot (fst (fst m))) F' /\ (forall x, F' x -> F x) /\
+                 (forall x, ~ F x -> load h' x = load h x)
+  | MPanic => False
+  | MFuel => snd (fst m) = OFuel
+  end.
+Proof.
+  intros h root ot F size keyS os pm.
+  exact (delete_top_sim _ (keyS ++ [0]) (keyS ++ [0]) (alpha_delete_loop_sim (keyS ++ [0])) (alpha_delete_leaf (keyS ++ [0])) h root ot F size os pm).
+Qed.
+
+Theorem gen_unsigned_delete_sim : forall h root ot F size keyS os pm,
+  repr_root h root ot F -> zero_pool pm -> isbytes keyS = true -> match ot with Some t => xfit t | None => True end ->
+  let m := xdo_delete (mkXstate ot size) keyS keyS os pm in
+  match g_unsigned_delete (key_fuel keyS) h root size keyS os (map_pool pm) with
+  | MDone h' root' size' os' p' ret =>
+      snd (fst m) = OBool ret /\ size' = xsize (fst (fst m)) /\ p' = map_pool (snd m) /\ zero_pool (snd m) /\
+      next h' = next h /\
+      exists F', repr_root h' root' (xroot (fst (fst m))) F' /\ (forall x, F' x -> F x) /\
+                 (forall x, ~ F x -> load h' x = load h x)
+  | MPanic => False
+  | MFuel => snd (fst m) = OFuel
+  end.
+Proof.
+  intros h root ot F size keyS os pm.
+  exact (delete_top_sim _ keyS keyS (unsigned_delete_loop_sim keyS) (unsigned_delete_leaf keyS) h root ot F size os pm).
+Qed.
+
+Theorem gen_signed_delete_sim : forall h root ot F size keyS os pm,
+  repr_root h root ot F -> zero_pool pm -> isbytes keyS = true -> match ot with Some t => xfit t | None => True end ->
+  let m := xdo_delete (mkXstate ot size) keyS keyS os pm in
+  match g_signed_delete (key_fuel keyS) h root size keyS os (map_pool pm) with
+  | MDone h' root' size' os' p' ret =>
+      snd (fst m) = OBool ret /\ size' = xsize (fst (fst m)) /\ p' = map_pool (snd m) /\ zero_pool (snd m) /\
+      next h' = next h /\
+      exists F', repr_root h' root' (xroot (fst (fst m))) F' /\ (forall x, F' x -> F x) /\
+                 (forall x, ~ F x -> load h' x = load h x)
+  | MPanic => False
+  | MFuel => snd (fst m) = OFuel
+  end.
+Proof.
+  intros h root ot F size keyS os pm.
+  exact (delete_top_sim _ keyS keyS (signed_delete_loop_sim keyS) (signed_delete_leaf keyS) h root ot F size os pm).
+Qed.
+
+Theorem gen_float_delete_sim : forall h root ot F size keyS os pm,
+  repr_root h root ot F -> zero_pool pm -> isbytes keyS = true -> match ot with Some t => xfit t | None => True end ->
+  let m := xdo_delete (mkXstate ot size) keyS keyS os pm in
+  match g_float_delete (key_fuel keyS) h root size keyS os (map_pool pm) with
+  | MDone h' root' size' os' p' ret =>
+      snd (fst m) = OBool ret /\ size' = xsize (fst (fst m)) /\ p' = map_pool (snd m) /\ zero_pool (snd m) /\
+      next h' = next h /\
+      exists F', repr_root h' root' (xroot (fst (fst m))) F' /\ (forall x, F' x -> F x) /\
+                 (forall x, ~ F x -> load h' x = load h x)
+  | MPanic => False
+  | MFuel => snd (fst m) = OFuel
+  end.
+Proof.
+  intros h root ot F size keyS os pm.
+  exact (delete_top_sim _ keyS keyS (float_delete_loop_sim keyS) (float_delete_leaf keyS) h root ot F size os pm).
+Qed.
+
+Theorem gen_compound_delete_sim : forall h root ot F size keyS os pm,
+  repr_root h root ot F -> zero_pool pm -> isbytes keyS = true -> match ot with Some t => xfit t | None => True end ->
+  let m := xdo_delete (mkXstate ot size) keyS keyS os pm in
+  match g_compound_delete (key_fuel keyS) h root size keyS os (map_pool pm) with
+  | MDone h' root' size' os' p' ret =>
+      snd (fst m) = OBool ret /\ size' = xsize (fst (fst m)) /\ p' = map_pool (snd m) /\ zero_pool (snd m) /\
+      next h' = next h /\
+      exists F', repr_root h' root' (xroot (fst (fst m))) F' /\ (forall x, F' x -> F x) /\
+                 (forall x, ~ F x -> load h' x = load h x)
+  | MPanic => False
+  | MFuel => snd (fst m) = OFuel
+  end.
+Proof.
+  intros h root ot F size keyS os pm.
+  exact (delete_top_sim _ keyS keyS (compound_delete_loop_sim keyS) (compound_delete_leaf keyS) h root ot F size os pm).
+Qed.
+
+Theorem gen_collation_delete_sim : forall h root ot F size keyS colKey os pm,
+  repr_root h root ot F -> zero_pool pm -> isbytes colKey = true -> match ot with Some t => xfit t | None => True end ->
+  let m := xdo_delete (mkXstate ot size) keyS colKey os pm in
+  match g_collation_delete (key_fuel colKey) h root size keyS colKey os (map_pool pm) with
+  | MDone h' root' size' os' p' ret =>
+      snd (fst m) = OBool ret /\ size' = xsize (fst (fst m)) /\ p' = map_pool (snd m) /\ zero_pool (snd m) /\
+      next h' = next h /\
+      exists F', repr_root h' root' (xroot (fst (fst m))) F' /\ (forall x, F' x -> F x) /\
+                 (forall x, ~ F x -> load h' x = load h x)
+  | MPanic => False
+  | MFuel => snd (fst m) = OFuel
+  end.
+Proof.
+  intros h root ot F size keyS colKey os pm.
+  exact (delete_top_sim _ keyS colKey (collation_delete_loop_sim keyS colKey) (collation_delete_leaf keyS colKey) h root ot F size os pm).
+Qed.
+
+(* ---- the hypotheses are satisfiable: a concrete heap holding a three-key tree ---- *)
+Definition ex3_l1 : atree := ALeaf 0%nat [97; 0] [97; 0] 1.
+Definition ex3_l2 : atree := ALeaf 1%nat [98; 0] [98; 0] 2.
+Definition ex3_l3 : atree := ALeaf 2%nat [99; 0] [99; 0] 3.
+Definition ex3_node : xnode atree :=
+  fst (xadd (fst (xadd (fst (xadd (xzero K4) 97 ex3_l1 [] [])) 98 ex3_l2 [] [])) 99 ex3_l3 [] []).
+Definition ex3_tree : atree := AInner 3%nat ex3_node.
+Definition ex3_heap : heap :=
+  snd (alloc (snd (alloc (snd (alloc (snd (alloc heap0 (aobj ex3_l1))) (aobj ex3_l2))) (aobj ex3_l3))) (aobj ex3_tree)).
+
+Lemma ex3_xwf : xwf ex3_node /\ kids ex3_node = [(97, ex3_l1); (98, ex3_l2); (99, ex3_l3)].
+Proof.
+  assert (Hz : zero_pool (@nil (xnode atree))) by constructor.
+  destruct (xadd_sim (xzero K4) 97 ex3_l1 [] [] xwf_zero4 Hz) as (E1 & X1); [lia|reflexivity|].
+  destruct (xadd_sim _ 98 ex3_l2 [] [] X1 Hz) as (E2 & X2); [lia|vm_compute; reflexivity|].
+  destruct (xadd_sim _ 99 ex3_l3 [] [] X2 Hz) as (E3 & X3); [lia|vm_compute; reflexivity|].
+  split; [exact X3|]. vm_compute. reflexivity.
+Qed.
+
+Example ex3_repr : repr_root ex3_heap (Some 3%nat) (Some (strip ex3_tree)) (fun x => (x < 4)%nat).
+Proof.
+  destruct ex3_xwf as (Hx & Hk).
+  assert (Hl : forall x, live ex3_tree x <-> (x < 4)%nat).
+  { intros x. split.
+    - intros H. destruct (live_inv _ _ H) as [->|(a & n & b & c & E & Hin & Hc)]; [cbn; lia|].
+      injection E as <- <-. rewrite Hk in Hin.
+      destruct Hin as [E|[E|[E|[]]]]; injection E as <- <-; apply live_leaf in Hc; subst x; lia.
+    - intros H. assert (E : (x = 0 \/ x = 1 \/ x = 2 \/ x = 3)%nat) by lia.
+      destruct E as [-> | [-> | [-> | ->]]]; [| | |apply (live_root ex3_tree)].
+      + eapply (live_kid 3%nat ex3_node 97 ex3_l1); [rewrite Hk; left; reflexivity|apply (live_root ex3_l1)].
+      + eapply (live_kid 3%nat ex3_node 98 ex3_l2); [rewrite Hk; right; left; reflexivity|apply (live_root ex3_l2)].
+      + eapply (live_kid 3%nat ex3_node 99 ex3_l3); [rewrite Hk; right; right; left; reflexivity|apply (live_root ex3_l3)]. }
+  split; [|intros x Hx0; exact Hx0].
+  exists ex3_tree. split; [reflexivity|]. split; [reflexivity|]. split; [|split; [|intros x; symmetry; apply Hl]].
+  - constructor; [reflexivity|exact Hx|]. intros b c Hin. rewrite Hk in Hin.
+    destruct Hin as [E|[E|[E|[]]]]; injection E as <- <-; constructor; reflexivity.
+  - constructor.
+    + intros b c Hin. rewrite Hk in Hin. destruct Hin as [E|[E|[E|[]]]]; injection E as <- <-; constructor.
+    + intros b c Hin Hlv. rewrite Hk in Hin.
+      destruct Hin as [E|[E|[E|[]]]]; injection E as <- <-; apply live_leaf in Hlv; discriminate Hlv.
+    + intros b1 c1 b2 c2 x H1 H2 Hne L1 L2. rewrite Hk in H1, H2.
+      destruct H1 as [E1|[E1|[E1|[]]]]; injection E1 as <- <-; apply live_leaf in L1; subst x;
+        destruct H2 as [E2|[E2|[E2|[]]]]; injection E2 as <- <-; apply live_leaf in L2; try discriminate L2; contradiction.
+Qed.
+(* on it the regenerated Delete and the model compute the same (the theorem below says so for every heap) *)
+Example ex3_delete_runs :
+  match g_alpha_delete (key_fuel [98; 0]) ex3_heap (Some 3%nat) 3 [98] [] [] with
+  | MDone h' root' size' _ _ ret =>
+      ret = true /\ size' = 2%Z /\
+      option_map tabs (h_reify h' root') =
+        option_map tabs (xroot (fst (fst (xdo_delete (mkXstate (Some (strip ex3_tree)) 3) [98; 0] [98; 0] [] []))))
+  | _ => False
+  end.
+Proof. vm_compute. repeat split. Qed.
+Example ex3_xfit : xfit (strip ex3_tree).
+Proof.
+  destruct ex3_xwf as (_ & Hk). unfold kids in Hk.
+  assert (Hks : nenum (xabs (xmap strip ex3_node)) = [(97, strip ex3_l1); (98, strip ex3_l2); (99, strip ex3_l3)])
+    by (rewrite nenum_xabs_xmap, Hk; reflexivity).
+  cbn [strip ex3_tree]. remember (xmap strip ex3_node) as m eqn:Em. apply xfit_inner.
+  - destruct m; cbn [xfit4]; try exact I. intros b cn Hin. rewrite Hks in Hin.
+    destruct Hin as [E|[E|[E|[]]]]; discriminate E.
+  - intros b c Hin. rewrite Hks in Hin. destruct Hin as [E|[E|[E|[]]]]; injection E as _ <-; constructor.
+Qed.
+(* the hypotheses of the Delete theorem hold on it *)
+Example ex3_delete_hyps : True.
+Proof.
+  pose proof (gen_alpha_delete_sim ex3_heap (Some 3%nat) (Some (strip ex3_tree)) _ 3 [98] [] []
+                ex3_repr (Forall_nil _) eq_refl ex3_xfit) as H.
+  exact I.
+Qed.
